@@ -8,6 +8,7 @@
 -/
 import Arrai.C02.Model
 import Arrai.C02.Assoc
+import Arrai.C02.SortNames
 
 namespace Arrai
 namespace FinSet
@@ -282,7 +283,7 @@ def depth : Rep → Nat
   | .generic xs => depthList xs + 1
   | .array vs _ _ => depthOpts vs + 1
   | .dict m => depthDict m + 1
-  | .relation _ rows => depthRows rows + 1
+  | .relation _ rows => depthRows rows + 2
   | .union bs => depthAttrs bs + 1
   | _ => 0
 def depthAttrs : List (String × Rep) → Nat
@@ -328,7 +329,11 @@ def frag : Rep → Bool
   | .generic xs => fragList xs
   | .array vs _ _ => fragOpts vs
   | .dict m => fragDict m
-  | _ => false
+  | .relation _ rows => fragRows rows
+  | .union bs => fragAttrs bs
+def fragRows : List (List Rep) → Bool
+  | [] => true
+  | row :: r => fragPlainList row && fragRows r
 def fragDict : List (Rep × List Rep) → Bool
   | [] => true
   | (k, vs) :: r => plain k && frag k && fragPlainList vs && fragDict r
@@ -447,14 +452,55 @@ def tupKind (l : List (String × V)) : Nat :=
       else 1
   else 1
 
-/-- the constructor a canonical representation of a denotation must have (fragment) -/
+/-- the bucket of a member of a set, read off its denotation (`getBucket`) -/
+inductive BK where
+  | g | c | b | i | e
+  | r (names : List String)
+  deriving DecidableEq
+
+def bucketV : V → BK
+  | .num _ => .g
+  | .set _ => .g
+  | .tup l =>
+    match tupKind l with
+    | 2 => .c | 3 => .b | 4 => .i | 5 => .e
+    | _ => if l.isEmpty then .g else .r (l.map (·.1))
+
+def bkTag : BK → Nat
+  | .g => 8 | .c => 9 | .b => 10 | .i => 11 | .e => 12 | .r _ => 13
+
+/-- the constructor a canonical representation of a denotation must have -/
 def vtag : V → Nat
   | .num _ => 0
   | .tup l => tupKind l
   | .set [] => 6
-  | .set [.tup []] => 7
-  | .set (.tup l :: _) => (match tupKind l with | 2 => 9 | 3 => 10 | 4 => 11 | 5 => 12 | _ => 8)
-  | .set _ => 8
+  | .set (m :: r) =>
+    if decide (m :: r = [V.tup []]) then 7
+    else if r.all (fun x => decide (bucketV x = bucketV m)) then bkTag (bucketV m) else 14
+
+theorem vtag_set_uniform (ms : List V) (X : BK) (hne : ms ≠ []) (hnt : ms ≠ [V.tup []])
+    (h : ∀ v, v ∈ ms → bucketV v = X) : vtag (.set ms) = bkTag X := by
+  cases ms with
+  | nil => exact absurd rfl hne
+  | cons m r =>
+    simp only [vtag, hnt, decide_false, Bool.false_eq_true, if_false]
+    have hm := h m (by simp)
+    have : r.all (fun x => decide (bucketV x = bucketV m)) = true := by
+      rw [List.all_eq_true]
+      intro x hx
+      simp [h x (List.mem_cons_of_mem _ hx), hm]
+    rw [if_pos this, hm]
+
+theorem bucketV_unit : bucketV (.tup []) = .g := by simp [bucketV, tupKind]
+
+/-- for a bucket other than the generic one the set cannot be `{()}` -/
+theorem vtag_set_uniform' (ms : List V) (X : BK) (hne : ms ≠ []) (hX : X ≠ .g)
+    (h : ∀ v, v ∈ ms → bucketV v = X) : vtag (.set ms) = bkTag X := by
+  apply vtag_set_uniform ms X hne _ h
+  intro e
+  have := h (.tup []) (by rw [e]; simp)
+  rw [bucketV_unit] at this
+  exact hX this.symm
 
 theorem head_mk_mem (l : List V) (v : V) (r : List V) (h : mk l = v :: r) : v ∈ l := by
   have : v ∈ mk l := by rw [h]; simp
@@ -615,8 +661,354 @@ theorem wfDict_mem : ∀ (m : List (Rep × List Rep)) (kv : Rep × List Rep), wf
       exact ⟨hw.1.1.1.1, by intro e; simp only [] at e; rw [e] at hw; simp at hw, hw.1.1.2, hw.1.2⟩
     · exact wfDict_mem r kv hw.2 h
 
-theorem vtag_den (a : Rep) (hw : wf a = true) (hf : frag a = true) : vtag (den a) = ctorTag a := by
-  cases a <;> simp [frag] at hf
+/-! ### relations: rows as generic tuples -/
+
+def rowT (names : List String) (row : List Rep) : Rep := .gtuple (names.zip row)
+
+theorem denAttrs_zip : ∀ (names : List String) (row : List Rep),
+    denAttrs (names.zip row) = zipAttrs names (denList row)
+  | [], _ => by simp [denAttrs, zipAttrs]
+  | _ :: _, [] => by simp [denAttrs, zipAttrs, denList]
+  | n :: ns, x :: xs => by simp [denAttrs, zipAttrs, denList, denAttrs_zip ns xs]
+
+theorem den_rowT (names : List String) (row : List Rep) :
+    den (rowT names row) = V.mkTup (zipAttrs names (denList row)) := by
+  simp [rowT, den, denAttrs_zip]
+
+theorem denRows_eq : ∀ (names : List String) (rows : List (List Rep)),
+    denRows names rows = rows.map (fun row => den (rowT names row))
+  | _, [] => rfl
+  | names, row :: r => by simp [denRows, den_rowT, denRows_eq names r]
+
+theorem namesOf_zip : ∀ (names : List String) (row : List Rep), row.length = names.length →
+    namesOf (names.zip row) = names
+  | [], [], _ => rfl
+  | [], _ :: _, h => by simp at h
+  | _ :: _, [], h => by simp at h
+  | n :: ns, x :: xs, h => by
+    have := namesOf_zip ns xs (by simpa using h)
+    simp only [namesOf] at this
+    simp [namesOf, this]
+
+theorem wfAttrs_zip : ∀ (names : List String) (row : List Rep), wfList row = true → wfAttrs (names.zip row) = true
+  | [], _, _ => by simp [wfAttrs]
+  | _ :: _, [], _ => by simp [wfAttrs]
+  | n :: ns, x :: xs, h => by
+    simp only [wfList, Bool.and_eq_true] at h
+    simp [wfAttrs, h.1, wfAttrs_zip ns xs h.2]
+
+theorem wfRows_mem : ∀ (names : List String) (rows : List (List Rep)) (row : List Rep), wfRows names rows = true →
+    row ∈ rows → row.length = names.length ∧ wfList row = true ∧ specialisable (names.zip row) = false
+  | _, [], _, _, h => by simp at h
+  | names, r0 :: r, row, hw, h => by
+    simp only [wfRows, Bool.and_eq_true, beq_iff_eq, Bool.not_eq_true'] at hw
+    simp only [List.mem_cons] at h
+    rcases h with h | h
+    · subst h; exact ⟨hw.1.1.1, hw.1.1.2, hw.1.2⟩
+    · exact wfRows_mem names r row hw.2 h
+
+theorem wf_rowT (names : List String) (rows : List (List Rep)) (row : List Rep) (hn : names.Nodup)
+    (hw : wfRows names rows = true) (h : row ∈ rows) : wf (rowT names row) = true := by
+  obtain ⟨h1, h2, h3⟩ := wfRows_mem names rows row hw h
+  simp [rowT, wf, namesOf_zip names row h1, hn, wfAttrs_zip names row h2, h3]
+
+theorem insAttr_names (n : String) (v w : V) : ∀ (l l' : List (String × V)), l.map (·.1) = l'.map (·.1) →
+    (V.insAttr n v l).map (·.1) = (V.insAttr n w l').map (·.1)
+  | [], [], _ => by simp [V.insAttr]
+  | [], _ :: _, h => by simp at h
+  | _ :: _, [], h => by simp at h
+  | (m, a) :: r, (m', a') :: r', h => by
+    simp only [List.map_cons, List.cons.injEq] at h
+    obtain ⟨h1, h2⟩ := h
+    subst h1
+    simp only [V.insAttr]
+    split
+    · simp [h2]
+    · split
+      · simp [h2]
+      · simp [insAttr_names n v w r r' h2]
+
+theorem mkAttrs_names_congr : ∀ (l l' : List (String × V)), l.map (·.1) = l'.map (·.1) →
+    (mkAttrs l).map (·.1) = (mkAttrs l').map (·.1)
+  | [], [], _ => rfl
+  | [], _ :: _, h => by simp at h
+  | _ :: _, [], h => by simp at h
+  | (n, v) :: r, (n', v') :: r', h => by
+    simp only [List.map_cons, List.cons.injEq] at h
+    obtain ⟨h1, h2⟩ := h
+    subst h1
+    show (V.insAttr n v (mkAttrs r)).map (·.1) = (V.insAttr n v' (mkAttrs r')).map (·.1)
+    exact insAttr_names n v v' _ _ (mkAttrs_names_congr r r' h2)
+
+theorem zipAttrs_names : ∀ (names : List String) (ds : List V), ds.length = names.length →
+    (zipAttrs names ds).map (·.1) = names
+  | [], [], _ => rfl
+  | [], _ :: _, h => by simp at h
+  | _ :: _, [], h => by simp at h
+  | n :: ns, d :: ds, h => by simp [zipAttrs, zipAttrs_names ns ds (by simpa using h)]
+
+/-- the sorted heading of a relation with these column names -/
+def headingOf (names : List String) : List String :=
+  (mkAttrs (zipAttrs names (names.map (fun _ => V.num 0)))).map (·.1)
+
+theorem bucketV_rowT (names : List String) (rows : List (List Rep)) (row : List Rep) (hn : names.Nodup)
+    (hne : names ≠ []) (hw : wfRows names rows = true) (h : row ∈ rows) :
+    bucketV (den (rowT names row)) = .r (headingOf names) := by
+  obtain ⟨h1, _, _⟩ := wfRows_mem names rows row hw h
+  have hk := tupKind_gtuple (names.zip row) (wf_rowT names rows row hn hw h)
+  rw [den_rowT, mkTup_eq]
+  rw [denAttrs_zip] at hk
+  simp only [bucketV, hk]
+  have hnames : (mkAttrs (zipAttrs names (denList row))).map (·.1) = headingOf names := by
+    apply mkAttrs_names_congr
+    rw [zipAttrs_names _ _ (by rw [denList_length]; exact h1), zipAttrs_names _ _ (by simp)]
+  have hnn : mkAttrs (zipAttrs names (denList row)) ≠ [] := by
+    cases names with
+    | nil => exact absurd rfl hne
+    | cons n ns =>
+      cases row with
+      | nil => simp at h1
+      | cons x xs =>
+        simp only [denList, zipAttrs, mkAttrs, List.foldr_cons]
+        exact insAttr_ne_nil _ _ _
+  have : (mkAttrs (zipAttrs names (denList row))).isEmpty = false := by
+    cases hh : mkAttrs (zipAttrs names (denList row)) with
+    | nil => exact absurd hh hnn
+    | cons _ _ => rfl
+  simp [this, hnames]
+
+/-! ### members of each set representation have one bucket -/
+
+theorem bucketV_char (i c : Int) (h : inRune c = true) : bucketV (vpair "@char" (.num i) (.num c)) = .c := by
+  simp [bucketV, vpair, tupKind, lookupV, numOfV, okBy, h]
+theorem bucketV_byte (i c : Int) (h : inByte c = true) : bucketV (vpair "@byte" (.num i) (.num c)) = .b := by
+  simp [bucketV, vpair, tupKind, lookupV, numOfV, okBy, h]
+theorem bucketV_item (i : Int) (x : V) : bucketV (vpair "@item" (.num i) x) = .i := by
+  simp [bucketV, vpair, tupKind, lookupV, numOfV, okBy]
+theorem bucketV_value (k x : V) : bucketV (vpair "@value" k x) = .e := by
+  simp [bucketV, vpair, tupKind, lookupV]
+
+theorem strMembers_form : ∀ (s : List Int) (off : Int) (v : V), v ∈ strMembers off s →
+    ∃ i c, v = vpair "@char" (.num i) (.num c) ∧ 0 ≤ c ∧ c ∈ s
+  | [], _, _, h => by simp [strMembers] at h
+  | d :: r, off, v, h => by
+    simp only [strMembers] at h
+    by_cases hd : d < 0
+    · simp only [hd, if_true] at h
+      obtain ⟨i, c, e, h1, h2⟩ := strMembers_form r (off + 1) v h
+      exact ⟨i, c, e, h1, List.mem_cons_of_mem _ h2⟩
+    · simp only [hd, if_false, List.mem_cons] at h
+      rcases h with h | h
+      · exact ⟨off, d, h, by omega, by simp⟩
+      · obtain ⟨i, c, e, h1, h2⟩ := strMembers_form r (off + 1) v h
+        exact ⟨i, c, e, h1, List.mem_cons_of_mem _ h2⟩
+
+theorem bytesMembers_form : ∀ (b : List Int) (off : Int) (v : V), v ∈ bytesMembers off b →
+    ∃ i c, v = vpair "@byte" (.num i) (.num c) ∧ c ∈ b
+  | [], _, _, h => by simp [bytesMembers] at h
+  | d :: r, off, v, h => by
+    simp only [bytesMembers, List.mem_cons] at h
+    rcases h with h | h
+    · exact ⟨off, d, h, by simp⟩
+    · obtain ⟨i, c, e, h2⟩ := bytesMembers_form r (off + 1) v h
+      exact ⟨i, c, e, List.mem_cons_of_mem _ h2⟩
+
+theorem bucketV_genericMember (y : Rep) (h : genericMember y = true) : bucketV (den y) = .g := by
+  rcases genericMember_den h with ⟨n, hn⟩ | ⟨l, hl⟩ | ht
+  · rw [hn]; rfl
+  · rw [hl]; rfl
+  · rw [ht]; exact bucketV_unit
+
+
+/-! ### union sets: every bucket holds the members of one `bucketV` class -/
+
+/-- the `bucketV` class of the members of a (non-union) set representation -/
+def bkOfSet : Rep → BK
+  | .str _ _ _ => .c | .bytes _ _ => .b | .array _ _ _ => .i | .dict _ => .e
+  | .relation names _ => .r (headingOf names)
+  | _ => .g
+
+theorem lookupV_isSome (k : String) : ∀ (l : List (String × V)), (lookupV k l).isSome = true ↔ k ∈ l.map (·.1)
+  | [] => by simp [lookupV]
+  | (m, v) :: r => by
+    simp only [lookupV, List.map_cons, List.mem_cons]
+    by_cases h : k = m
+    · simp [h]
+    · simp [h, lookupV_isSome k r]
+
+theorem mem_headingOf (names : List String) (x : String) : x ∈ headingOf names ↔ x ∈ names := by
+  unfold headingOf
+  rw [← lookupV_isSome, lookupV_mkAttrs, lookupV_isSome, zipAttrs_names _ _ (by simp)]
+
+theorem sub_members_bucket (s : Rep) (k : String) (hw : wf s = true) (hk : bucketOfSet s = some k) :
+    vmembers (den s) ≠ [] ∧ ∀ v, v ∈ vmembers (den s) → bucketV v = bkOfSet s := by
+  cases s <;> simp [bucketOfSet] at hk
+  case true_ => simp [den, vmembers, bkOfSet, bucketV_unit]
+  case generic xs =>
+    simp only [wf, Bool.and_eq_true, Bool.not_eq_true', decide_eq_true_eq] at hw
+    obtain ⟨⟨⟨⟨hne, _⟩, hgm⟩, _⟩, _⟩ := hw
+    simp only [den, V.mkSet, vmembers, bkOfSet]
+    refine ⟨?_, ?_⟩
+    · intro h
+      have := (mk_eq_nil _).1 h
+      cases xs with
+      | nil => simp at hne
+      | cons x r => simp [denList] at this
+    · intro v hv
+      obtain ⟨x, hx, e⟩ := (mem_denList xs v).1 ((mem_mk _ _).1 hv)
+      rw [← e]
+      exact bucketV_genericMember x (List.all_eq_true.1 hgm x hx)
+  case str s off holes =>
+    rw [den_str]
+    simp only [vmembers, bkOfSet]
+    refine ⟨strMembers_ne_nil off s (by simp only [wf, Bool.and_eq_true] at hw; exact hw.1.1.1), ?_⟩
+    have hr : ∀ c, c ∈ s → c ≤ 0x10FFFF := by
+      simp only [wf, Bool.and_eq_true] at hw
+      intro c hc
+      have := List.all_eq_true.1 hw.1.2 c hc
+      simp at this; exact this.2
+    intro v hv
+    obtain ⟨i, c, e, h0, hc⟩ := strMembers_form s off v hv
+    subst e
+    exact bucketV_char i c (by simp [inRune]; exact ⟨h0, hr c hc⟩)
+  case bytes b off =>
+    rw [den_bytes]
+    simp only [wf, Bool.and_eq_true, Bool.not_eq_true', List.isEmpty_eq_false_iff] at hw
+    simp only [vmembers, bkOfSet]
+    refine ⟨?_, ?_⟩
+    · cases b with
+      | nil => exact absurd rfl hw.1
+      | cons c r => simp [bytesMembers]
+    · intro v hv
+      obtain ⟨i, c, e, hc⟩ := bytesMembers_form b off v hv
+      subst e
+      exact bucketV_byte i c (List.all_eq_true.1 hw.2 c hc)
+  case array vs off c =>
+    rw [den_array]
+    simp only [wf, Bool.and_eq_true] at hw
+    simp only [vmembers, bkOfSet]
+    refine ⟨?_, ?_⟩
+    · cases vs with
+      | nil => simp [headSome] at hw
+      | cons o r =>
+        cases o with
+        | none => simp [headSome] at hw
+        | some x => simp [denOpts, seqM]
+    · intro v hv
+      obtain ⟨i, x, e, _⟩ := seqM_index "@item" _ off v hv
+      subst e
+      exact bucketV_item i x
+  case dict m =>
+    simp only [wf, Bool.and_eq_true, Bool.not_eq_true', decide_eq_true_eq] at hw
+    obtain ⟨⟨hne, hwd⟩, _⟩ := hw
+    have hm : m ≠ [] := by intro e; subst e; simp at hne
+    have hen := entries_ne_nil m hm (fun kv hkv => (wfDict_mem m kv hwd hkv).2.1)
+    simp only [den, V.mkSet, denDict_eq, vmembers, bkOfSet]
+    refine ⟨?_, ?_⟩
+    · intro h; have := (mk_eq_nil _).1 h; simp at this; exact hen this
+    · intro v hv
+      obtain ⟨e, _, he⟩ := List.mem_map.1 ((mem_mk _ _).1 hv)
+      subst he
+      exact bucketV_value _ _
+  case relation names rows =>
+    simp only [wf, Bool.and_eq_true, Bool.not_eq_true', decide_eq_true_eq] at hw
+    obtain ⟨⟨⟨⟨hnn, hnd⟩, hrn⟩, hwr⟩, _⟩ := hw
+    have hne : names ≠ [] := by intro e; subst e; simp at hnn
+    have hre : rows ≠ [] := by intro e; subst e; simp at hrn
+    simp only [den, V.mkSet, denRows_eq, vmembers, bkOfSet]
+    refine ⟨?_, ?_⟩
+    · intro h; have := (mk_eq_nil _).1 h; simp at this; exact hre this
+    · intro v hv
+      obtain ⟨row, hrow, he⟩ := List.mem_map.1 ((mem_mk _ _).1 hv)
+      subst he
+      exact bucketV_rowT names rows row hnd hne hwr hrow
+
+/-- the bucket key is determined by the class of the members -/
+theorem bkOfSet_key (s s' : Rep) (k k' : String) (hw : wf s = true) (hw' : wf s' = true)
+    (hk : bucketOfSet s = some k) (hk' : bucketOfSet s' = some k') (h : bkOfSet s = bkOfSet s') : k = k' := by
+  cases s <;> simp [bucketOfSet] at hk <;> cases s' <;> simp [bucketOfSet] at hk' <;> simp [bkOfSet] at h <;>
+    try (rw [← hk, ← hk'])
+  case relation.relation ns rows ns' rows' =>
+    simp only [wf, Bool.and_eq_true, Bool.not_eq_true', decide_eq_true_eq] at hw hw'
+    have : sortStrs ns = sortStrs ns' := by
+      rw [sortStrs_eq_iff ns ns' hw.1.1.1.2 hw'.1.1.1.2]
+      intro x
+      rw [← mem_headingOf ns, ← mem_headingOf ns', h]
+    rw [this]
+
+theorem wfBuckets_mem : ∀ (bs : List (String × Rep)) (p : String × Rep), wfBuckets bs = true → p ∈ bs →
+    wf p.2 = true ∧ bucketOfSet p.2 = some p.1
+  | [], _, _, h => by simp at h
+  | (k, s) :: r, p, hw, h => by
+    simp only [wfBuckets, Bool.and_eq_true, beq_iff_eq] at hw
+    simp only [List.mem_cons] at h
+    rcases h with h | h
+    · subst h; exact ⟨hw.1.1, hw.1.2⟩
+    · exact wfBuckets_mem r p hw.2 h
+
+theorem mem_denBuckets : ∀ (bs : List (String × Rep)) (v : V),
+    v ∈ denBuckets bs ↔ ∃ p, p ∈ bs ∧ v ∈ vmembers (den p.2)
+  | [], v => by simp [denBuckets]
+  | (k, s) :: r, v => by
+    simp only [denBuckets, List.mem_append, mem_denBuckets r v, List.mem_cons]
+    constructor
+    · rintro (h | ⟨p, hp, h⟩)
+      · exact ⟨(k, s), Or.inl rfl, h⟩
+      · exact ⟨p, Or.inr hp, h⟩
+    · rintro ⟨p, hp | hp, h⟩
+      · subst hp; exact Or.inl h
+      · exact Or.inr ⟨p, hp, h⟩
+
+/-- a set with members of two different classes -/
+theorem vtag_set_mixed (ms : List V) (v1 v2 : V) (h1 : v1 ∈ ms) (h2 : v2 ∈ ms) (hne : bucketV v1 ≠ bucketV v2) :
+    vtag (.set ms) = 14 := by
+  cases ms with
+  | nil => simp at h1
+  | cons m r =>
+    have hnt : ¬ (m :: r = [V.tup []]) := by
+      intro e
+      rw [e] at h1 h2
+      simp at h1 h2
+      rw [h1, h2] at hne
+      exact hne rfl
+    have hall : r.all (fun x => decide (bucketV x = bucketV m)) = false := by
+      rw [Bool.eq_false_iff]
+      intro hall
+      rw [List.all_eq_true] at hall
+      have cls : ∀ v, v ∈ m :: r → bucketV v = bucketV m := by
+        intro v hv
+        simp only [List.mem_cons] at hv
+        rcases hv with hv | hv
+        · rw [hv]
+        · simpa using hall v hv
+      rw [cls v1 h1, cls v2 h2] at hne
+      exact hne rfl
+    simp [vtag, hnt, hall]
+
+/-- two buckets of a canonical union set and one member of each, of different classes -/
+theorem union_two_members (bs : List (String × Rep)) (hw : wf (.union bs) = true) :
+    ∃ p q v1 v2, p ∈ bs ∧ q ∈ bs ∧ p.1 ≠ q.1 ∧ v1 ∈ vmembers (den p.2) ∧ v2 ∈ vmembers (den q.2) ∧
+      bucketV v1 = bkOfSet p.2 ∧ bucketV v2 = bkOfSet q.2 ∧ bucketV v1 ≠ bucketV v2 := by
+  simp only [wf, Bool.and_eq_true, decide_eq_true_eq] at hw
+  obtain ⟨⟨hl, hnd⟩, hwb⟩ := hw
+  match bs, hl, hnd, hwb with
+  | p :: q :: r, _, hnd, hwb =>
+    have hpq : p.1 ≠ q.1 := by
+      simp only [List.map_cons, List.nodup_cons, List.mem_cons, not_or] at hnd
+      exact hnd.1.1
+    obtain ⟨wp, kp⟩ := wfBuckets_mem _ p hwb (by simp)
+    obtain ⟨wq, kq⟩ := wfBuckets_mem _ q hwb (by simp)
+    obtain ⟨np, bp⟩ := sub_members_bucket p.2 p.1 wp kp
+    obtain ⟨nq, bq⟩ := sub_members_bucket q.2 q.1 wq kq
+    obtain ⟨v1, h1⟩ := List.exists_mem_of_ne_nil _ np
+    obtain ⟨v2, h2⟩ := List.exists_mem_of_ne_nil _ nq
+    refine ⟨p, q, v1, v2, by simp, by simp, hpq, h1, h2, bp v1 h1, bq v2 h2, ?_⟩
+    rw [bp v1 h1, bq v2 h2]
+    intro e
+    exact hpq (bkOfSet_key p.2 q.2 p.1 q.1 wp wq kp kq e)
+
+theorem vtag_den_wf (a : Rep) (hw : wf a = true) : vtag (den a) = ctorTag a := by
+  cases a
   case num n => simp [den, vtag, ctorTag]
   case gtuple as =>
     rw [den, mkTup_eq]
@@ -634,85 +1026,118 @@ theorem vtag_den (a : Rep) (hw : wf a = true) (hf : frag a = true) : vtag (den a
   case true_ => simp [den, vtag, ctorTag]
   case str s off holes =>
     rw [den_str]
-    simp only [wf, Bool.and_eq_true] at hw
-    cases s with
-    | nil => simp [headNonneg] at hw
-    | cons c r =>
-      have hc : ¬ c < 0 := by
-        have := hw.1.1.1; simp [headNonneg] at this; omega
-      have hr : inRune c = true := by
-        have := hw.1.2; simp at this
-        simp [inRune]; omega
-      simp [strMembers, hc, vtag, ctorTag, vpair, tupKind, lookupV, numOfV, okBy, hr]
+    have hne := strMembers_ne_nil off s (by simp only [wf, Bool.and_eq_true] at hw; exact hw.1.1.1)
+    have hr : ∀ c, c ∈ s → c ≤ 0x10FFFF := by
+      simp only [wf, Bool.and_eq_true] at hw
+      intro c hc
+      have := List.all_eq_true.1 hw.1.2 c hc
+      simp at this; exact this.2
+    rw [vtag_set_uniform' _ .c hne (by simp)]
+    · rfl
+    · intro v hv
+      obtain ⟨i, c, e, h0, hc⟩ := strMembers_form s off v hv
+      subst e
+      exact bucketV_char i c (by simp [inRune]; exact ⟨h0, hr c hc⟩)
   case bytes b off =>
     rw [den_bytes]
-    simp only [wf, Bool.and_eq_true] at hw
-    cases b with
-    | nil => simp at hw
-    | cons c r =>
-      have hr : inByte c = true := by have := hw.2; simp at this; exact this.1
-      simp [bytesMembers, vtag, ctorTag, vpair, tupKind, lookupV, numOfV, okBy, hr]
+    simp only [wf, Bool.and_eq_true, Bool.not_eq_true', List.isEmpty_eq_false_iff] at hw
+    have hne : bytesMembers off b ≠ [] := by
+      cases b with
+      | nil => exact absurd rfl hw.1
+      | cons c r => simp [bytesMembers]
+    rw [vtag_set_uniform' _ .b hne (by simp)]
+    · rfl
+    · intro v hv
+      obtain ⟨i, c, e, hc⟩ := bytesMembers_form b off v hv
+      subst e
+      exact bucketV_byte i c (List.all_eq_true.1 hw.2 c hc)
   case array vs off c =>
     rw [den_array]
     simp only [wf, Bool.and_eq_true] at hw
-    cases vs with
-    | nil => simp [headSome] at hw
-    | cons o r =>
-      cases o with
-      | none => simp [headSome] at hw
-      | some x => simp [denOpts, seqM, vtag, ctorTag, vpair, tupKind, lookupV, numOfV, okBy]
+    have hne : seqM "@item" off (denOpts vs) ≠ [] := by
+      cases vs with
+      | nil => simp [headSome] at hw
+      | cons o r =>
+        cases o with
+        | none => simp [headSome] at hw
+        | some x => simp [denOpts, seqM]
+    rw [vtag_set_uniform' _ .i hne (by simp)]
+    · rfl
+    · intro v hv
+      obtain ⟨i, x, e, _⟩ := seqM_index "@item" _ off v hv
+      subst e
+      exact bucketV_item i x
   case dict m =>
     simp only [wf, Bool.and_eq_true, Bool.not_eq_true', decide_eq_true_eq] at hw
     obtain ⟨⟨hne, hwd⟩, _⟩ := hw
     have hm : m ≠ [] := by intro e; subst e; simp at hne
     have hen := entries_ne_nil m hm (fun kv hkv => (wfDict_mem m kv hwd hkv).2.1)
     simp only [den, V.mkSet, ctorTag, denDict_eq]
-    cases hmk : mk ((entries m).map entryDen) with
-    | nil =>
-      have := (mk_eq_nil _).1 hmk
-      simp at this; exact absurd this hen
-    | cons v r =>
-      have hv := head_mk_mem _ _ _ hmk
-      obtain ⟨e, _, he⟩ := List.mem_map.1 hv
+    have hne' : mk ((entries m).map entryDen) ≠ [] := by
+      intro h; have := (mk_eq_nil _).1 h; simp at this; exact hen this
+    rw [vtag_set_uniform' _ .e hne' (by simp)]
+    · rfl
+    · intro v hv
+      obtain ⟨e, _, he⟩ := List.mem_map.1 ((mem_mk _ _).1 hv)
       subst he
-      simp [entryDen, vtag, vpair, tupKind, lookupV]
+      exact bucketV_value _ _
+  case relation names rows =>
+    simp only [wf, Bool.and_eq_true, Bool.not_eq_true', decide_eq_true_eq] at hw
+    obtain ⟨⟨⟨⟨hnn, hnd⟩, hrn⟩, hwr⟩, _⟩ := hw
+    have hne : names ≠ [] := by intro e; subst e; simp at hnn
+    have hre : rows ≠ [] := by intro e; subst e; simp at hrn
+    simp only [den, V.mkSet, ctorTag, denRows_eq]
+    have hne' : mk (rows.map (fun row => den (rowT names row))) ≠ [] := by
+      intro h; have := (mk_eq_nil _).1 h; simp at this; exact hre this
+    rw [vtag_set_uniform' _ (.r (headingOf names)) hne' (by simp)]
+    · rfl
+    · intro v hv
+      obtain ⟨row, hrow, he⟩ := List.mem_map.1 ((mem_mk _ _).1 hv)
+      subst he
+      exact bucketV_rowT names rows row hnd hne hwr hrow
   case generic xs =>
     simp only [wf, Bool.and_eq_true, Bool.not_eq_true', decide_eq_true_eq] at hw
     obtain ⟨⟨⟨⟨hne, hwl⟩, hgm⟩, hnd⟩, hnt⟩ := hw
     simp only [den, V.mkSet, ctorTag]
-    cases hm : mk (denList xs) with
-    | nil =>
-      have := (mk_eq_nil _).1 hm
+    have hne' : mk (denList xs) ≠ [] := by
+      intro h
+      have := (mk_eq_nil _).1 h
       cases xs with
       | nil => simp at hne
       | cons x r => simp [denList] at this
-    | cons v r =>
-      have hv : v ∈ denList xs := head_mk_mem _ _ _ hm
-      obtain ⟨x, hx, e⟩ := (mem_denList xs v).1 hv
-      have hg : genericMember x = true := by
-        have := List.all_eq_true.1 hgm x hx; exact this
+    have hnt' : mk (denList xs) ≠ [V.tup []] := by
+      intro hm
+      have hlen : (mk (denList xs)).length = (denList xs).length := length_mk_of_nodup _ hnd
+      rw [hm] at hlen
+      have hv : V.tup [] ∈ denList xs := head_mk_mem _ _ _ hm
+      have : denList xs = [V.tup []] := by
+        cases hd : denList xs with
+        | nil => rw [hd] at hlen; simp at hlen
+        | cons d ds =>
+          rw [hd] at hlen hv
+          cases ds with
+          | nil =>
+            have : V.tup [] = d := by simpa using hv
+            rw [← this]
+          | cons _ _ => simp at hlen
+      simp [this] at hnt
+    rw [vtag_set_uniform _ .g hne' hnt']
+    · rfl
+    · intro v hv
+      obtain ⟨x, hx, e⟩ := (mem_denList xs v).1 ((mem_mk _ _).1 hv)
+      have hg : genericMember x = true := List.all_eq_true.1 hgm x hx
       rcases genericMember_den hg with ⟨n, hn⟩ | ⟨l, hl⟩ | ht
-      · rw [← e, hn]; simp [vtag]
-      · rw [← e, hl]; simp [vtag]
-      · -- v = () : then the set is not {()} because members are distinct and the list is not [()]
-        rw [← e, ht]
-        cases r with
-        | cons w r' => simp [vtag, tupKind]
-        | nil =>
-          exfalso
-          have hlen : (mk (denList xs)).length = (denList xs).length := length_mk_of_nodup _ hnd
-          rw [hm] at hlen
-          have : denList xs = [V.tup []] := by
-            cases hd : denList xs with
-            | nil => rw [hd] at hlen; simp at hlen
-            | cons d ds =>
-              rw [hd] at hlen hv
-              cases ds with
-              | nil =>
-                have : v = d := by simpa using hv
-                rw [← this, ← e, ht]
-              | cons _ _ => simp at hlen
-          simp [this] at hnt
+      · rw [← e, hn]; rfl
+      · rw [← e, hl]; rfl
+      · rw [← e, ht]; exact bucketV_unit
+  case union bs =>
+    obtain ⟨p, q, v1, v2, hp, hq, _, h1, h2, _, _, hne⟩ := union_two_members bs hw
+    simp only [den, V.mkSet, ctorTag]
+    exact vtag_set_mixed _ v1 v2 ((mem_mk _ _).2 ((mem_denBuckets bs v1).2 ⟨p, hp, h1⟩))
+      ((mem_mk _ _).2 ((mem_denBuckets bs v2).2 ⟨q, hq, h2⟩)) hne
+
+theorem vtag_den (a : Rep) (hw : wf a = true) (_hf : frag a = true) : vtag (den a) = ctorTag a :=
+  vtag_den_wf a hw
 
 /-! ### strings and byte arrays: canonical forms are determined by the denotation -/
 
@@ -1870,6 +2295,65 @@ theorem asEntry_genericMember (y : Rep) (h : genericMember y = true) : asEntry y
     | cons p r => simp [genericMember, isSet] at h
 
 /-- `Dict.Equal` against a canonical set of another representation is false -/
+theorem asEntry_rowT (names : List String) (row : List Rep) (h : specialisable (names.zip row) = false) :
+    asEntry (rowT names row) = none := by
+  unfold rowT asEntry
+  by_cases hl : (names.zip row).length = 2
+  · simp only [hl, if_true]
+    unfold specialisable at h
+    simp only [hl, beq_self_eq_true, Bool.true_and] at h
+    cases h1 : lookupAttr "@" (names.zip row) with
+    | none => rfl
+    | some i =>
+      rw [h1] at h
+      simp only [Bool.or_eq_false_iff] at h
+      cases h2 : lookupAttr "@value" (names.zip row) with
+      | none => rfl
+      | some v => rw [h2] at h; simp at h
+  · simp only [hl, ↓reduceIte]
+
+/-- every canonical set other than a dictionary has a member that is no `@`/`@value` tuple -/
+theorem nonentry_member (s : Rep) (k : String) (wb : wf s = true) (hk : bucketOfSet s = some k)
+    (hnd : ∀ m, s ≠ .dict m) : ∃ e, e ∈ members1 s ∧ asEntry e = none := by
+  cases s <;> simp [bucketOfSet] at hk
+  case true_ => exact ⟨.gtuple [], by simp [members1], by simp [asEntry]⟩
+  case dict m => exact absurd rfl (hnd m)
+  case relation names rows =>
+    simp only [wf, Bool.and_eq_true, Bool.not_eq_true', decide_eq_true_eq] at wb
+    obtain ⟨⟨⟨_, hrn⟩, hwr⟩, _⟩ := wb
+    cases rows with
+    | nil => simp at hrn
+    | cons r0 r =>
+      obtain ⟨_, _, h3⟩ := wfRows_mem names (r0 :: r) r0 hwr (by simp)
+      exact ⟨rowT names r0, by simp [members1, rowT], asEntry_rowT names r0 h3⟩
+  case generic ys =>
+    simp only [wf, Bool.and_eq_true, Bool.not_eq_true', decide_eq_true_eq] at wb
+    obtain ⟨⟨⟨⟨hne, _⟩, hgm⟩, _⟩, _⟩ := wb
+    cases ys with
+    | nil => simp at hne
+    | cons y r =>
+      exact ⟨y, by simp [members1], asEntry_genericMember y (by simpa using (List.all_eq_true.1 hgm) y (by simp))⟩
+  case str s off h =>
+    simp only [wf, Bool.and_eq_true] at wb
+    cases s with
+    | nil => simp [headNonneg] at wb
+    | cons c r =>
+      have hc : 0 ≤ c := by have := wb.1.1.1; simpa [headNonneg] using this
+      exact ⟨.charT (off + 0) c, by simp [members1, List.zipIdx_cons, hc], by simp [asEntry]⟩
+  case bytes bs off =>
+    simp only [wf, Bool.and_eq_true] at wb
+    cases bs with
+    | nil => simp at wb
+    | cons c r => exact ⟨.byteT (off + 0) c, by simp [members1, List.zipIdx_cons], by simp [asEntry]⟩
+  case array vs off c =>
+    simp only [wf, Bool.and_eq_true] at wb
+    cases vs with
+    | nil => simp [headSome] at wb
+    | cons o r =>
+      cases o with
+      | none => simp [headSome] at wb
+      | some x => exact ⟨.itemT (off + 0) x, by simp [members1, List.zipIdx_cons], by simp [asEntry]⟩
+
 theorem dict_equal_nondict (m : List (Rep × List Rep)) (b : Rep) (wb : wf b = true) (fb : frag b = true)
     (hb : ∀ m', b ≠ .dict m') : equal (.dict m) b = false := by
   cases b <;> simp [frag] at fb
@@ -1882,6 +2366,16 @@ theorem dict_equal_nondict (m : List (Rep × List Rep)) (b : Rep) (wb : wf b = t
   case empty => simp [equal, equalG, isSet, count]
   case true_ => simp [equal, equalG, isSet, count, members, members1, asEntry]
   case dict m' => exact absurd rfl (hb m')
+  case relation names rows =>
+    simp only [wf, Bool.and_eq_true, Bool.not_eq_true', decide_eq_true_eq] at wb
+    obtain ⟨⟨⟨_, hrn⟩, hwr⟩, _⟩ := wb
+    cases rows with
+    | nil => simp at hrn
+    | cons r0 r =>
+      obtain ⟨_, _, h3⟩ := wfRows_mem names (r0 :: r) r0 hwr (by simp)
+      have := asEntry_rowT names r0 h3
+      simp only [rowT] at this
+      simp [equal, equalG, members, members1, this]
   case generic ys =>
     simp only [wf, Bool.and_eq_true, Bool.not_eq_true', decide_eq_true_eq] at wb
     obtain ⟨⟨⟨⟨hne, _⟩, hgm⟩, _⟩, _⟩ := wb
@@ -1910,6 +2404,397 @@ theorem dict_equal_nondict (m : List (Rep × List Rep)) (b : Rep) (wb : wf b = t
       cases o with
       | none => simp [headSome] at wb
       | some x => simp [equal, equalG, members, members1, List.zipIdx_cons, asEntry]
+  case union bs =>
+    obtain ⟨p, q, _, _, hp, hq, hpq, _⟩ := union_two_members bs wb
+    have hwb : wfBuckets bs = true := by simp only [wf, Bool.and_eq_true] at wb; exact wb.2
+    obtain ⟨wp, kp⟩ := wfBuckets_mem bs p hwb hp
+    obtain ⟨wq, kq⟩ := wfBuckets_mem bs q hwb hq
+    have : ∃ t, t ∈ bs ∧ ∀ m', t.2 ≠ .dict m' := by
+      by_cases h1 : ∃ m1, p.2 = .dict m1
+      · by_cases h2 : ∃ m2, q.2 = .dict m2
+        · obtain ⟨m1, e1⟩ := h1
+          obtain ⟨m2, e2⟩ := h2
+          rw [e1] at kp; rw [e2] at kq
+          simp [bucketOfSet] at kp kq
+          exact absurd (kp.symm.trans kq) hpq
+        · exact ⟨q, hq, fun m' e => h2 ⟨m', e⟩⟩
+      · exact ⟨p, hp, fun m' e => h1 ⟨m', e⟩⟩
+    obtain ⟨t, ht, htd⟩ := this
+    obtain ⟨wt, kt⟩ := wfBuckets_mem bs t hwb ht
+    obtain ⟨e, he, hne⟩ := nonentry_member t.2 t.1 wt kt htd
+    simp only [equal, equalG]
+    rw [Bool.and_eq_false_iff]
+    right
+    rw [List.all_eq_false]
+    exact ⟨e, by simp only [members, List.mem_flatMap]; exact ⟨t, ht, he⟩, by simp [hne]⟩
+
+/-! ### relations -/
+
+theorem fragRows_mem : ∀ (rows : List (List Rep)) (row : List Rep), fragRows rows = true → row ∈ rows →
+    fragPlainList row = true
+  | [], _, _, h => by simp at h
+  | r0 :: r, row, hf, h => by
+    simp only [fragRows, Bool.and_eq_true] at hf
+    simp only [List.mem_cons] at h
+    rcases h with h | h
+    · subst h; exact hf.1
+    · exact fragRows_mem r row hf.2 h
+
+theorem fragAttrs_zip : ∀ (names : List String) (row : List Rep), fragPlainList row = true →
+    fragAttrs (names.zip row) = true
+  | [], _, _ => by simp [fragAttrs]
+  | _ :: _, [], _ => by simp [fragAttrs]
+  | n :: ns, x :: xs, h => by
+    simp only [fragPlainList, Bool.and_eq_true] at h
+    simp [fragAttrs, h.1.1, h.1.2, fragAttrs_zip ns xs h.2]
+
+theorem depthAttrs_zip : ∀ (names : List String) (row : List Rep), depthAttrs (names.zip row) ≤ depthList row
+  | [], _ => by simp [depthAttrs]
+  | _ :: _, [] => by simp [depthAttrs]
+  | n :: ns, x :: xs => by
+    have := depthAttrs_zip ns xs
+    simp [depthAttrs, depthList]; omega
+
+theorem depth_mem_rows : ∀ (rows : List (List Rep)) (row : List Rep), row ∈ rows → depthList row ≤ depthRows rows
+  | [], _, h => by simp at h
+  | r0 :: r, row, h => by
+    simp only [List.mem_cons] at h
+    rcases h with h | h
+    · subst h; simp [depthRows]
+    · have := depth_mem_rows r row h
+      simp [depthRows]; omega
+
+theorem depth_rowT (names : List String) (row : List Rep) : depth (rowT names row) ≤ depthList row + 1 := by
+  have := depthAttrs_zip names row
+  unfold rowT
+  cases h : names.zip row with
+  | nil => simp [depth]
+  | cons p r => rw [h] at this; simp only [depth]; omega
+
+theorem xorRow_eq : ∀ (names : List String) (row : List Rep) (s : HV),
+    xorRow true names row s = xorAttrs true (names.zip row) s
+  | [], _, _ => by simp [xorRow, xorAttrs]
+  | _ :: _, [], _ => by simp [xorRow, xorAttrs]
+  | n :: ns, x :: xs, s => by simp [xorRow, xorAttrs, xorRow_eq ns xs s]
+
+theorem xorRows_eq_pairs : ∀ (names : List String) (rows : List (List Rep)) (s : HV),
+    xorRows true names rows s = xorPairs (rows.map (fun row => (rowT names row, s)))
+  | _, [], _ => rfl
+  | names, row :: r, s => by
+    simp only [xorRows, List.map_cons, xorPairs, xorRows_eq_pairs names r s, xorRow_eq]
+    simp [rowT, hashG]
+
+/-- everything the main induction needs to know about a canonical fragment relation -/
+theorem relation_facts (n : Nat) (names : List String) (rows : List (List Rep))
+    (hd : depth (.relation names rows) < n + 1) (hw : wf (.relation names rows) = true)
+    (hf : frag (.relation names rows) = true) :
+    names ≠ [] ∧ names.Nodup ∧ rows ≠ [] ∧ wfRows names rows = true ∧ (denRows names rows).Nodup ∧
+    fragRows rows = true ∧
+    (∀ row, row ∈ rows → depth (rowT names row) < n ∧ wf (rowT names row) = true ∧
+      frag (rowT names row) = true ∧ row.length = names.length ∧ fragPlainList row = true ∧ wfList row = true ∧
+      ∀ x, x ∈ row → depth x + 1 < n) := by
+  simp only [wf, Bool.and_eq_true, Bool.not_eq_true', decide_eq_true_eq] at hw
+  obtain ⟨⟨⟨⟨hnn, hnd⟩, hrn⟩, hwr⟩, hdn⟩ := hw
+  have hfr : fragRows rows = true := by simpa [frag] using hf
+  refine ⟨by intro e; subst e; simp at hnn, hnd, by intro e; subst e; simp at hrn, hwr, hdn, hfr, ?_⟩
+  intro row hrow
+  obtain ⟨h1, h2, _⟩ := wfRows_mem names rows row hwr hrow
+  have d1 := depth_mem_rows rows row hrow
+  have d2 := depth_rowT names row
+  simp only [depth] at hd
+  refine ⟨by omega, wf_rowT names rows row hnd hwr hrow, ?_, h1, fragRows_mem rows row hfr hrow, h2, ?_⟩
+  · simpa [rowT, frag] using fragAttrs_zip names row (fragRows_mem rows row hfr hrow)
+  · intro x hx
+    have := depth_mem_list row x hx
+    omega
+
+def rowTs (names : List String) (rows : List (List Rep)) : List Rep := rows.map (rowT names)
+
+theorem denRows_rowTs (names : List String) (rows : List (List Rep)) :
+    denRows names rows = (rowTs names rows).map den := by
+  rw [denRows_eq]; simp [rowTs, List.map_map, Function.comp_def]
+
+theorem xorRows_eq_mk (names : List String) (rows : List (List Rep)) (s : HV)
+    (hf : ∀ row, row ∈ rows → frag (rowT names row) = true)
+    (hn : ((rowTs names rows).map (fun t => atomAt t s)).Nodup) :
+    xorRows true names rows s = mk ((rowTs names rows).map (fun t => atomAt t s)) := by
+  rw [xorRows_eq_pairs, xorPairs_eq_mk]
+  · simp [rowTs, List.map_map, Function.comp_def]
+  · intro p hp
+    obtain ⟨row, hrow, e⟩ := List.mem_map.1 hp
+    subst e
+    exact ⟨hf row hrow, rfl⟩
+  · simpa [rowTs, List.map_map, Function.comp_def] using hn
+
+/-- a generic core for lists of plain fragment values hashed under one seed -/
+theorem seeded_core (xs ys : List Rep) (s : HV)
+    (hfx : ∀ x, x ∈ xs → frag x = true ∧ plain x = true) (hfy : ∀ x, x ∈ ys → frag x = true ∧ plain x = true)
+    (H : ∀ x, x ∈ xs ++ ys → ∀ y, y ∈ xs ++ ys → (hashG true x s = hashG true y s ↔ den x = den y)) :
+    (mk (xs.map (fun t => atomAt t s)) = mk (ys.map (fun t => atomAt t s)) ↔ mk (xs.map den) = mk (ys.map den)) := by
+  rw [mk_eq_iff, mk_eq_iff]
+  apply map_mem_transfer
+  intro x hx y hy
+  have := H x (by simp [hx]) y (by simp [hy])
+  rw [hash_singleton x (hfx x hx).1 (hfx x hx).2, hash_singleton y (hfy y hy).1 (hfy y hy).2] at this
+  simpa using this
+
+theorem seeded_nodup (xs : List Rep) (s : HV) (hfx : ∀ x, x ∈ xs → frag x = true ∧ plain x = true)
+    (hn : (xs.map den).Nodup)
+    (H : ∀ x, x ∈ xs → ∀ y, y ∈ xs → (hashG true x s = hashG true y s ↔ den x = den y)) :
+    (xs.map (fun t => atomAt t s)).Nodup := by
+  apply nodup_map_of (fun t => atomAt t s) den xs _ hn
+  intro x hx y hy e
+  have := H x hx y hy
+  rw [hash_singleton x (hfx x hx).1 (hfx x hx).2, hash_singleton y (hfx y hy).1 (hfx y hy).2] at this
+  exact this.1 (by rw [e])
+
+/-! #### `Relation.EqualRelation`: rows hashed as `Values` in sorted-name order -/
+
+def getDen (names : List String) (row : List Rep) (n : String) : Option V := (rowGet names row n).map den
+
+theorem rowGet_mem (names : List String) (row : List Rep) (n : String) (v : Rep) (h : rowGet names row n = some v) :
+    v ∈ row := by
+  have := lookupAttr_mem _ _ _ h
+  exact (List.of_mem_zip this).2
+
+theorem rowGet_isSome (names : List String) (row : List Rep) (hl : row.length = names.length) (n : String) :
+    (rowGet names row n).isSome = true ↔ n ∈ names := by
+  unfold rowGet
+  cases h : lookupAttr n (names.zip row) with
+  | none =>
+    have := (lookupAttr_none_iff _ _).1 h
+    rw [namesOf_zip names row hl] at this
+    simp [this]
+  | some v =>
+    have := lookupAttr_mem _ _ _ h
+    simp [(List.of_mem_zip this).1]
+
+/-- the row denotes the map name ↦ denotation of the cell -/
+theorem den_rowT_eq_iff (ns ns' : List String) (row row' : List Rep) :
+    den (rowT ns row) = den (rowT ns' row') ↔ ∀ k, getDen ns row k = getDen ns' row' k := by
+  simp only [rowT, den, mkTup_eq_iff, lookupV_denAttrs, getDen, rowGet]
+
+def chainStep (names : List String) (row : List Rep) (h : HV) (n : String) : HV :=
+  match rowGet names row n with
+  | some v => hashG true v h
+  | none => h
+
+theorem rowChain_eq (names S : List String) (row : List Rep) :
+    rowChain true names S row = S.foldl (chainStep names row) [] := rfl
+
+/-- cells of two rows: plain fragment values whose hash is injective under every seed -/
+def CellIH (row row' : List Rep) : Prop :=
+  (∀ v, v ∈ row ++ row' → frag v = true ∧ plain v = true) ∧
+  ∀ v, v ∈ row ++ row' → ∀ v', v' ∈ row ++ row' → ∀ S S' : HV,
+    (hashG true v S = hashG true v' S' ↔ (S = S' ∧ den v = den v'))
+
+theorem chain_inj (ns ns' : List String) (row row' : List Rep) (H : CellIH row row') :
+    ∀ (S : List String) (h h' : HV),
+      (∀ n, n ∈ S → (rowGet ns row n).isSome = true ∧ (rowGet ns' row' n).isSome = true) →
+      (S.foldl (chainStep ns row) h = S.foldl (chainStep ns' row') h' ↔
+        (h = h' ∧ ∀ n, n ∈ S → getDen ns row n = getDen ns' row' n))
+  | [], h, h', _ => by simp
+  | n :: S, h, h', hs => by
+    obtain ⟨g1, g2⟩ := hs n (by simp)
+    cases e1 : rowGet ns row n with
+    | none => rw [e1] at g1; cases g1
+    | some v =>
+      cases e2 : rowGet ns' row' n with
+      | none => rw [e2] at g2; cases g2
+      | some v' =>
+        have hv : v ∈ row ++ row' := List.mem_append.2 (Or.inl (rowGet_mem _ _ _ _ e1))
+        have hv' : v' ∈ row ++ row' := List.mem_append.2 (Or.inr (rowGet_mem _ _ _ _ e2))
+        simp only [List.foldl_cons]
+        rw [chain_inj ns ns' row row' H S _ _ (fun m hm => hs m (List.mem_cons_of_mem _ hm))]
+        simp only [chainStep, e1, e2, H.2 v hv v' hv' h h', List.mem_cons, forall_eq_or_imp, getDen,
+          Option.map_some, Option.some.injEq]
+        constructor
+        · rintro ⟨⟨a, b⟩, c⟩; exact ⟨a, b, c⟩
+        · rintro ⟨a, b, c⟩; exact ⟨⟨a, b⟩, c⟩
+
+theorem chain_singleton (ns : List String) (row : List Rep)
+    (hf : ∀ v, v ∈ row → frag v = true ∧ plain v = true) :
+    ∀ (S : List String) (h : HV), S ≠ [] → (∀ n, n ∈ S → (rowGet ns row n).isSome = true) →
+      ∃ A, S.foldl (chainStep ns row) h = [A]
+  | [], _, hne, _ => absurd rfl hne
+  | [n], h, _, hs => by
+    cases e1 : rowGet ns row n with
+    | none => have := hs n (by simp); rw [e1] at this; cases this
+    | some v =>
+      have hv := hf v (rowGet_mem _ _ _ _ e1)
+      exact ⟨atomAt v h, by simp [chainStep, e1, hash_singleton v hv.1 hv.2]⟩
+  | n :: m :: S, h, _, hs => by
+    simp only [List.foldl_cons]
+    exact chain_singleton ns row hf (m :: S) _ (by simp) (fun k hk => hs k (List.mem_cons_of_mem _ hk))
+
+theorem foldr_hxor_singletons {α} (c : α → V) : ∀ (l : List α) (f : α → HV), (∀ x, x ∈ l → f x = [c x]) →
+    (l.map c).Nodup → l.foldr (fun x acc => hxor (f x) acc) [] = mk (l.map c)
+  | [], _, _, _ => rfl
+  | x :: r, f, hf, hn => by
+    simp only [List.map_cons, List.nodup_cons] at hn
+    simp only [List.foldr_cons, List.map_cons]
+    rw [foldr_hxor_singletons c r f (fun y hy => hf y (List.mem_cons_of_mem _ hy)) hn.2, hf x (by simp)]
+    have hx : c x ∉ mk (r.map c) := fun h => hn.1 ((mem_mk _ _).1 h)
+    rw [hxor, symdiff_singleton _ _ (sorted_mk _) hx]
+    rfl
+
+/-- a relation body as (heading, row) pairs, its `Values` hash atom and its row denotation -/
+def relPairs (ns : List String) (rows : List (List Rep)) : List (List String × List Rep) := rows.map (fun r => (ns, r))
+def chainAtom (p : List String × List Rep) : V := (rowChain true p.1 (sortNames p.1) p.2).headD (.num 0)
+def rowDen (p : List String × List Rep) : V := den (rowT p.1 p.2)
+
+/-- what is known about the rows of a canonical fragment relation -/
+structure RelOk (ns : List String) (rows : List (List Rep)) : Prop where
+  nne : ns ≠ []
+  nnd : ns.Nodup
+  rne : rows ≠ []
+  len : ∀ row, row ∈ rows → row.length = ns.length
+  cells : ∀ row, row ∈ rows → ∀ v, v ∈ row → frag v = true ∧ plain v = true
+  dnd : (denRows ns rows).Nodup
+
+theorem sortNames_mem (ns : List String) (x : String) : x ∈ sortNames ns ↔ x ∈ ns := mem_sortStrs ns x
+
+theorem chain_is_singleton (ns : List String) (rows : List (List Rep)) (ok : RelOk ns rows) (row : List Rep)
+    (hr : row ∈ rows) : rowChain true ns (sortNames ns) row = [chainAtom (ns, row)] := by
+  have hne : sortNames ns ≠ [] := by
+    intro e
+    cases hns : ns with
+    | nil => exact ok.nne hns
+    | cons n r =>
+      have : n ∈ sortNames ns := (sortNames_mem ns n).2 (by rw [hns]; simp)
+      rw [e] at this; simp at this
+  obtain ⟨A, hA⟩ := chain_singleton ns row (ok.cells row hr) (sortNames ns) [] hne
+    (fun n hn => (rowGet_isSome ns row (ok.len row hr) n).2 ((sortNames_mem ns n).1 hn))
+  rw [rowChain_eq] at *
+  simp [chainAtom, rowChain_eq, hA]
+
+/-- for rows of relations with the same set of column names: same `Values` hash iff same row denotation -/
+theorem chainAtom_iff (ns ns' : List String) (rows rows' : List (List Rep)) (ok : RelOk ns rows) (ok' : RelOk ns' rows')
+    (hnames : ∀ x, x ∈ ns ↔ x ∈ ns') (row row' : List Rep) (hr : row ∈ rows) (hr' : row' ∈ rows')
+    (H : CellIH row row') : chainAtom (ns, row) = chainAtom (ns', row') ↔ rowDen (ns, row) = rowDen (ns', row') := by
+  have hS : sortNames ns = sortNames ns' := (sortStrs_eq_iff ns ns' ok.nnd ok'.nnd).2 hnames
+  have c1 := chain_is_singleton ns rows ok row hr
+  have c2 := chain_is_singleton ns' rows' ok' row' hr'
+  have hci := chain_inj ns ns' row row' H (sortNames ns) [] [] (fun n hn =>
+    ⟨(rowGet_isSome ns row (ok.len row hr) n).2 ((sortNames_mem ns n).1 hn),
+     (rowGet_isSome ns' row' (ok'.len row' hr') n).2 ((hnames n).1 ((sortNames_mem ns n).1 hn))⟩)
+  have h1 : chainAtom (ns, row) = chainAtom (ns', row') ↔
+      rowChain true ns (sortNames ns) row = rowChain true ns' (sortNames ns') row' := by
+    rw [c1, c2]; simp
+  rw [h1, rowChain_eq, rowChain_eq, ← hS, hci]
+  simp only [rowDen, den_rowT_eq_iff, true_and]
+  constructor
+  · intro h k
+    by_cases hk : k ∈ ns
+    · exact h k ((sortNames_mem ns k).2 hk)
+    · have e1 : getDen ns row k = none := by
+        have : ¬ (rowGet ns row k).isSome = true := fun e => hk ((rowGet_isSome ns row (ok.len row hr) k).1 e)
+        cases hh : rowGet ns row k with
+        | none => simp [getDen, hh]
+        | some _ => rw [hh] at this; simp at this
+      have e2 : getDen ns' row' k = none := by
+        have : ¬ (rowGet ns' row' k).isSome = true := fun e =>
+          hk ((hnames k).2 ((rowGet_isSome ns' row' (ok'.len row' hr') k).1 e))
+        cases hh : rowGet ns' row' k with
+        | none => simp [getDen, hh]
+        | some _ => rw [hh] at this; simp at this
+      rw [e1, e2]
+  · intro h k _; exact h k
+
+theorem rowsXor_eq_mk (ns : List String) (rows : List (List Rep)) (ok : RelOk ns rows)
+    (hn : ((relPairs ns rows).map chainAtom).Nodup) :
+    rowsXor true ns rows = mk ((relPairs ns rows).map chainAtom) := by
+  unfold rowsXor
+  have := foldr_hxor_singletons (fun row => chainAtom (ns, row)) rows
+    (fun row => rowChain true ns (sortNames ns) row) (fun row hr => chain_is_singleton ns rows ok row hr)
+    (by simpa [relPairs, List.map_map, Function.comp_def] using hn)
+  simpa [relPairs, List.map_map, Function.comp_def] using this
+
+theorem denRows_relPairs (ns : List String) (rows : List (List Rep)) :
+    denRows ns rows = (relPairs ns rows).map rowDen := by
+  rw [denRows_eq]; simp [relPairs, rowDen, List.map_map, Function.comp_def]
+
+/-- names of a row's denotation: two rows with the same denotation have the same column names -/
+theorem names_of_rowDen (ns ns' : List String) (row row' : List Rep) (hl : row.length = ns.length)
+    (hl' : row'.length = ns'.length) (h : rowDen (ns, row) = rowDen (ns', row')) : ∀ x, x ∈ ns ↔ x ∈ ns' := by
+  intro x
+  have := (den_rowT_eq_iff ns ns' row row').1 h x
+  rw [← rowGet_isSome ns row hl x, ← rowGet_isSome ns' row' hl' x]
+  simp only [getDen] at this
+  cases h1 : rowGet ns row x <;> cases h2 : rowGet ns' row' x <;> simp [h1, h2] at this ⊢
+
+/-- `Relation.Equal` on canonical fragment relations is equality of denotations -/
+theorem relation_equal_iff (ns ns' : List String) (rows rows' : List (List Rep)) (ok : RelOk ns rows)
+    (ok' : RelOk ns' rows')
+    (H : ∀ r1, r1 ∈ rows ++ rows' → ∀ r2, r2 ∈ rows ++ rows' → CellIH r1 r2) :
+    equal (.relation ns rows) (.relation ns' rows') = true ↔ mk (denRows ns rows) = mk (denRows ns' rows') := by
+  -- within one relation: atoms are distinct
+  have nd1 : ((relPairs ns rows).map chainAtom).Nodup := by
+    apply nodup_map_of chainAtom rowDen
+    · intro p hp q hq e
+      obtain ⟨r1, h1, rfl⟩ := List.mem_map.1 hp
+      obtain ⟨r2, h2, rfl⟩ := List.mem_map.1 hq
+      exact (chainAtom_iff ns ns rows rows ok ok (fun _ => Iff.rfl) r1 r2 h1 h2
+        (H r1 (by simp [h1]) r2 (by simp [h2]))).1 e
+    · rw [← denRows_relPairs]; exact ok.dnd
+  have nd2 : ((relPairs ns' rows').map chainAtom).Nodup := by
+    apply nodup_map_of chainAtom rowDen
+    · intro p hp q hq e
+      obtain ⟨r1, h1, rfl⟩ := List.mem_map.1 hp
+      obtain ⟨r2, h2, rfl⟩ := List.mem_map.1 hq
+      exact (chainAtom_iff ns' ns' rows' rows' ok' ok' (fun _ => Iff.rfl) r1 r2 h1 h2
+        (H r1 (by simp [h1]) r2 (by simp [h2]))).1 e
+    · rw [← denRows_relPairs]; exact ok'.dnd
+  have hX := rowsXor_eq_mk ns rows ok nd1
+  have hX' := rowsXor_eq_mk ns' rows' ok' nd2
+  have hXne : (rowsXor true ns rows).isEmpty = false := by
+    rw [hX]
+    cases hh : mk ((relPairs ns rows).map chainAtom) with
+    | nil =>
+      have := (mk_eq_nil _).1 hh
+      simp [relPairs] at this
+      exact absurd this ok.rne
+    | cons _ _ => rfl
+  -- with the same column names the transfer between atoms and row denotations works
+  have transfer : (∀ x, x ∈ ns ↔ x ∈ ns') →
+      (mk ((relPairs ns rows).map chainAtom) = mk ((relPairs ns' rows').map chainAtom) ↔
+        mk ((relPairs ns rows).map rowDen) = mk ((relPairs ns' rows').map rowDen)) := by
+    intro hnames
+    rw [mk_eq_iff, mk_eq_iff]
+    apply map_mem_transfer
+    intro p hp q hq
+    obtain ⟨r1, h1, rfl⟩ := List.mem_map.1 hp
+    obtain ⟨r2, h2, rfl⟩ := List.mem_map.1 hq
+    exact chainAtom_iff ns ns' rows rows' ok ok' hnames r1 r2 h1 h2 (H r1 (by simp [h1]) r2 (by simp [h2]))
+  simp only [equal, equalG, Bool.and_eq_true, beq_iff_eq, frozenEq, hXne, Bool.not_false, Bool.true_or,
+    and_true]
+  rw [denRows_relPairs, denRows_relPairs]
+  constructor
+  · rintro ⟨⟨⟨_, hs⟩, _⟩, hx⟩
+    have hnames := (sortStrs_eq_iff ns ns' ok.nnd ok'.nnd).1 hs
+    rw [hX, hX'] at hx
+    exact (transfer hnames).1 hx
+  · intro hd
+    have hmem := (mk_eq_iff _ _).1 hd
+    -- a row of the first relation and its partner give the column names
+    obtain ⟨r0, hr0⟩ : ∃ r0, r0 ∈ rows := by
+      cases hh : rows with
+      | nil => exact absurd hh ok.rne
+      | cons r _ => exact ⟨r, by simp⟩
+    obtain ⟨q, hq, e⟩ := List.mem_map.1 ((hmem (rowDen (ns, r0))).1
+      (List.mem_map.2 ⟨(ns, r0), List.mem_map.2 ⟨r0, hr0, rfl⟩, rfl⟩))
+    obtain ⟨r0', hr0', rfl⟩ := List.mem_map.1 hq
+    have hnames := names_of_rowDen ns ns' r0 r0' (ok.len r0 hr0) (ok'.len r0' hr0') e.symm
+    have hs : sortNames ns = sortNames ns' := (sortStrs_eq_iff ns ns' ok.nnd ok'.nnd).2 hnames
+    have hl : ns.length = ns'.length :=
+      length_eq_of_same_members ns ns' ok.nnd ok'.nnd hnames
+    have hrl : rows.length = rows'.length := by
+      have := length_eq_of_same_members _ _ (by rw [← denRows_relPairs]; exact ok.dnd)
+        (by rw [← denRows_relPairs]; exact ok'.dnd) hmem
+      simpa [relPairs] using this
+    refine ⟨⟨⟨hl, hs⟩, hrl⟩, ?_⟩
+    rw [hX, hX']
+    exact (transfer hnames).2 hd
 
 /-! ### the main theorem on the fragment -/
 
@@ -2038,6 +2923,774 @@ theorem dict_facts (n : Nat) (m : List (Rep × List Rep)) (hd : depth (.dict m) 
   refine ⟨⟨by rw [h1]; omega, by rw [h1]; exact wk, fk, pk⟩,
     ⟨by have := dv e.2 h2; omega, wfList_mem kv.2 e.2 wvs h2, fv, pv⟩⟩
 
+theorem seed_acyclic (t : String) (p : V) (s : HV) : hatom t p s ≠ s := by
+  intro h
+  have := congrArg sizeOf h
+  simp [hatom] at this
+  omega
+
+theorem single_acyclic (t : String) (p : V) (s : HV) : [V.tup [(t, p), ("seed", V.set s)]] ≠ s :=
+  seed_acyclic t p s
+
+theorem relOk_of_facts (n : Nat) (names : List String) (rows : List (List Rep))
+    (hd : depth (.relation names rows) < n + 1) (hw : wf (.relation names rows) = true)
+    (hf : frag (.relation names rows) = true) : RelOk names rows := by
+  obtain ⟨h1, h2, h3, _, h5, _, F⟩ := relation_facts n names rows hd hw hf
+  exact ⟨h1, h2, h3, fun row hr => (F row hr).2.2.2.1,
+    fun row hr v hv => ⟨(fragPlainList_mem row v (F row hr).2.2.2.2.1 hv).2, (fragPlainList_mem row v (F row hr).2.2.2.2.1 hv).1⟩, h5⟩
+
+/-! ### the induction hypothesis of the main theorem, as standalone consequences -/
+
+/-- the main statement for all pairs of canonical fragment representations below a depth bound -/
+def IHn (n : Nat) : Prop :=
+  ∀ a b : Rep, depth a < n → depth b < n → wf a = true → wf b = true → frag a = true → frag b = true → MainAt a b
+
+def HashIH (n : Nat) : Prop :=
+  ∀ x y, depth x < n → depth y < n → wf x = true → wf y = true → frag x = true → frag y = true →
+    plain x = true → plain y = true →
+    ∀ S S' : HV, (hashG true x S = hashG true y S' ↔ (S = S' ∧ den x = den y))
+
+theorem ihH_of (n : Nat) (ih : IHn n) : HashIH n :=
+  fun x y dx dy wx wy fx fy px py => (ih x y dx dy wx wy fx fy).2 px py
+
+theorem memH_of (n : Nat) (ih : IHn n) : ∀ (xs ys : List Rep), (∀ x, x ∈ xs → depth x < n) → (∀ x, x ∈ ys → depth x < n) →
+    wfList xs = true → wfList ys = true → fragList xs = true → fragList ys = true →
+    (∀ x, x ∈ xs → plain x = true) → (∀ x, x ∈ ys → plain x = true) →
+    ∀ x, x ∈ xs ++ ys → ∀ y, y ∈ xs ++ ys → (hashG true x [] = hashG true y [] ↔ den x = den y) := by
+  have ihH := ihH_of n ih
+  intro xs ys dx dy wx wy fx fy ppx ppy x hx y hy
+  have px : depth x < n ∧ wf x = true ∧ frag x = true ∧ plain x = true := by
+    rcases List.mem_append.1 hx with h | h
+    · exact ⟨dx x h, wfList_mem xs x wx h, fragList_mem xs x fx h, ppx x h⟩
+    · exact ⟨dy x h, wfList_mem ys x wy h, fragList_mem ys x fy h, ppy x h⟩
+  have py : depth y < n ∧ wf y = true ∧ frag y = true ∧ plain y = true := by
+    rcases List.mem_append.1 hy with h | h
+    · exact ⟨dx y h, wfList_mem xs y wx h, fragList_mem xs y fx h, ppx y h⟩
+    · exact ⟨dy y h, wfList_mem ys y wy h, fragList_mem ys y fy h, ppy y h⟩
+  have := ihH x y px.1 py.1 px.2.1 py.2.1 px.2.2.1 py.2.2.1 px.2.2.2 py.2.2.2 [] []
+  simpa using this
+
+theorem dictH_of (n : Nat) (ih : IHn n) : ∀ (m m' : List (Rep × List Rep)), depth (.dict m) < n + 1 → depth (.dict m') < n + 1 →
+    wf (.dict m) = true → wf (.dict m') = true → frag (.dict m) = true → frag (.dict m') = true →
+    DictIH m m' := by
+  have ihH := ihH_of n ih
+  intro m m' d1 d2 w1 w2 f1 f2 e he e' he'
+  obtain ⟨_, _, _, _, _, F1⟩ := dict_facts n m d1 w1 f1
+  obtain ⟨_, _, _, _, _, F2⟩ := dict_facts n m' d2 w2 f2
+  have fe : (depth e.1 < n ∧ wf e.1 = true ∧ frag e.1 = true ∧ plain e.1 = true) ∧
+      (depth e.2 < n ∧ wf e.2 = true ∧ frag e.2 = true ∧ plain e.2 = true) := by
+    rcases List.mem_append.1 he with h | h
+    · exact F1 e h
+    · exact F2 e h
+  have fe' : (depth e'.1 < n ∧ wf e'.1 = true ∧ frag e'.1 = true ∧ plain e'.1 = true) ∧
+      (depth e'.2 < n ∧ wf e'.2 = true ∧ frag e'.2 = true ∧ plain e'.2 = true) := by
+    rcases List.mem_append.1 he' with h | h
+    · exact F1 e' h
+    · exact F2 e' h
+  obtain ⟨⟨a1, a2, a3, a4⟩, ⟨b1, b2, b3, b4⟩⟩ := fe
+  obtain ⟨⟨c1, c2, c3, c4⟩, ⟨d1', d2', d3, d4⟩⟩ := fe'
+  exact ⟨ihH e.1 e'.1 a1 c1 a2 c2 a3 c3 a4 c4, ihH e.2 e'.2 b1 d1' b2 d2' b3 d3 b4 d4,
+    (ih e.1 e'.1 a1 c1 a2 c2 a3 c3).1, (ih e.2 e'.2 b1 d1' b2 d2' b3 d3).1⟩
+
+theorem relH_of (n : Nat) (ih : IHn n) : ∀ (ns ns' : List String) (rows rows' : List (List Rep)),
+    depth (.relation ns rows) < n + 1 → depth (.relation ns' rows') < n + 1 →
+    wf (.relation ns rows) = true → wf (.relation ns' rows') = true →
+    frag (.relation ns rows) = true → frag (.relation ns' rows') = true →
+    ∀ r1, r1 ∈ rows ++ rows' → ∀ r2, r2 ∈ rows ++ rows' → CellIH r1 r2 := by
+  have ihH := ihH_of n ih
+  intro ns ns' rows rows' d1 d2 w1 w2 f1 f2 r1 h1 r2 h2
+  obtain ⟨_, _, _, _, _, _, F1⟩ := relation_facts n ns rows d1 w1 f1
+  obtain ⟨_, _, _, _, _, _, F2⟩ := relation_facts n ns' rows' d2 w2 f2
+  have cell : ∀ r, r ∈ rows ++ rows' → ∀ v, v ∈ r →
+      depth v < n ∧ wf v = true ∧ frag v = true ∧ plain v = true := by
+    intro r hr v hv
+    rcases List.mem_append.1 hr with h | h
+    · obtain ⟨_, _, _, _, fp, wl, dv⟩ := F1 r h
+      have := dv v hv
+      exact ⟨by omega, wfList_mem r v wl hv, (fragPlainList_mem r v fp hv).2, (fragPlainList_mem r v fp hv).1⟩
+    · obtain ⟨_, _, _, _, fp, wl, dv⟩ := F2 r h
+      have := dv v hv
+      exact ⟨by omega, wfList_mem r v wl hv, (fragPlainList_mem r v fp hv).2, (fragPlainList_mem r v fp hv).1⟩
+  have cell2 : ∀ v, v ∈ r1 ++ r2 → depth v < n ∧ wf v = true ∧ frag v = true ∧ plain v = true := by
+    intro v hv
+    rcases List.mem_append.1 hv with h | h
+    · exact cell r1 h1 v h
+    · exact cell r2 h2 v h
+  refine ⟨fun v hv => ⟨(cell2 v hv).2.2.1, (cell2 v hv).2.2.2⟩, fun v hv v' hv' => ?_⟩
+  obtain ⟨a1, a2, a3, a4⟩ := cell2 v hv
+  obtain ⟨b1, b2, b3, b4⟩ := cell2 v' hv'
+  exact ihH v v' a1 b1 a2 b2 a3 b3 a4 b4
+
+theorem rowH_of (n : Nat) (ih : IHn n) : ∀ (ns ns' : List String) (rows rows' : List (List Rep)),
+    depth (.relation ns rows) < n + 1 → depth (.relation ns' rows') < n + 1 →
+    wf (.relation ns rows) = true → wf (.relation ns' rows') = true →
+    frag (.relation ns rows) = true → frag (.relation ns' rows') = true →
+    ∀ x, x ∈ rowTs ns rows ++ rowTs ns' rows' → ∀ y, y ∈ rowTs ns rows ++ rowTs ns' rows' →
+      ∀ S S' : HV, (hashG true x S = hashG true y S' ↔ (S = S' ∧ den x = den y)) := by
+  have ihH := ihH_of n ih
+  intro ns ns' rows rows' d1 d2 w1 w2 f1 f2 x hx y hy
+  obtain ⟨_, _, _, _, _, _, F1⟩ := relation_facts n ns rows d1 w1 f1
+  obtain ⟨_, _, _, _, _, _, F2⟩ := relation_facts n ns' rows' d2 w2 f2
+  have tf : ∀ t, t ∈ rowTs ns rows ++ rowTs ns' rows' → depth t < n ∧ wf t = true ∧ frag t = true ∧ plain t = true := by
+    intro t ht
+    rcases List.mem_append.1 ht with h | h
+    · obtain ⟨row, hr, rfl⟩ := List.mem_map.1 h
+      obtain ⟨a, b, c, _⟩ := F1 row hr
+      exact ⟨a, b, c, rfl⟩
+    · obtain ⟨row, hr, rfl⟩ := List.mem_map.1 h
+      obtain ⟨a, b, c, _⟩ := F2 row hr
+      exact ⟨a, b, c, rfl⟩
+  obtain ⟨a1, a2, a3, a4⟩ := tf x hx
+  obtain ⟨b1, b2, b3, b4⟩ := tf y hy
+  exact ihH x y a1 b1 a2 b2 a3 b3 a4 b4
+
+/-! ### union sets: every member of every bucket contributes one atom under its own seed -/
+
+/-- a contribution `(atom, member denotation)` of a bucket member: the atom is the hash of a plain value `x`
+under seed `[]` (member `x` itself), `hash.Int(i, 0)` (array item `(@: i, @item: x)`) or `k.Hash(0)`
+(dictionary entry `(@: k, @value: x)`) -/
+def Desc (n : Nat) (c : V × V) : Prop :=
+  ∃ (x : Rep) (sd : HV), depth x < n ∧ wf x = true ∧ frag x = true ∧ plain x = true ∧ c.1 = atomAt x sd ∧
+    ((sd = [] ∧ c.2 = den x) ∨ (∃ i : Int, sd = intSeed i [] ∧ c.2 = vpair "@item" (.num i) (den x)) ∨
+     (∃ k : Rep, depth k < n ∧ wf k = true ∧ frag k = true ∧ plain k = true ∧ sd = hashG true k [] ∧
+        c.2 = vpair "@value" (den k) (den x)))
+
+theorem plain_den_ne_item (x : Rep) (hw : wf x = true) (hf : frag x = true) (hp : plain x = true) (i : Int) (y : V) :
+    den x ≠ vpair "@item" (.num i) y := by
+  intro h
+  have := vtag_den x hw hf
+  rw [h] at this
+  have ht : vtag (vpair "@item" (.num i) y) = 4 := by simp [vtag, vpair, tupKind, lookupV, numOfV, okBy]
+  rw [ht] at this
+  cases x <;> simp [ctorTag] at this <;> simp [plain] at hp
+
+theorem plain_den_ne_value (x : Rep) (hw : wf x = true) (hf : frag x = true) (hp : plain x = true) (k y : V) :
+    den x ≠ vpair "@value" k y := by
+  intro h
+  have := vtag_den x hw hf
+  rw [h] at this
+  have ht : vtag (vpair "@value" k y) = 5 := by simp [vtag, vpair, tupKind, lookupV]
+  rw [ht] at this
+  cases x <;> simp [ctorTag] at this <;> simp [plain] at hp
+
+theorem atom_iff_hash (x y : Rep) (hx : frag x = true) (px : plain x = true) (hy : frag y = true)
+    (py : plain y = true) (s s' : HV) : atomAt x s = atomAt y s' ↔ hashG true x s = hashG true y s' := by
+  rw [hash_singleton x hx px, hash_singleton y hy py]; simp
+
+theorem desc_iff (n : Nat) (H : HashIH n) (c c' : V × V) (hc : Desc n c) (hc' : Desc n c') :
+    c.1 = c'.1 ↔ c.2 = c'.2 := by
+  obtain ⟨x, sd, dx, wx, fx, px, e1, k1⟩ := hc
+  obtain ⟨x', sd', dx', wx', fx', px', e1', k1'⟩ := hc'
+  have base : c.1 = c'.1 ↔ (sd = sd' ∧ den x = den x') := by
+    rw [e1, e1', atom_iff_hash x x' fx px fx' px']
+    exact H x x' dx dx' wx wx' fx fx' px px' sd sd'
+  rw [base]
+  rcases k1 with ⟨s0, d0⟩ | ⟨i, s0, d0⟩ | ⟨k, dk, wk, fk, pk, s0, d0⟩ <;>
+    rcases k1' with ⟨s0', d0'⟩ | ⟨i', s0', d0'⟩ | ⟨k', dk', wk', fk', pk', s0', d0'⟩ <;> rw [d0, d0', s0, s0']
+  · simp
+  · constructor
+    · intro h; simp [intSeed, hatom] at h
+    · intro h; exact absurd h (plain_den_ne_item x wx fx px i' _)
+  · constructor
+    · intro h; rw [hash_singleton k' fk' pk'] at h; simp at h
+    · intro h; exact absurd h (plain_den_ne_value x wx fx px _ _)
+  · constructor
+    · intro h; simp [intSeed, hatom] at h
+    · intro h; exact absurd h.symm (plain_den_ne_item x' wx' fx' px' i _)
+  · rw [intSeed_inj]
+    constructor
+    · rintro ⟨⟨rfl, _⟩, h⟩; rw [h]
+    · intro h; obtain ⟨h1, h2⟩ := vpair_inj h
+      exact ⟨⟨by simpa using h1, rfl⟩, h2⟩
+  · constructor
+    · rintro ⟨h, _⟩
+      rw [hash_singleton k' fk' pk'] at h
+      have h' : atomAt k' [] = .tup [("int", .num i), ("seed", .set [])] := by
+        simpa [intSeed, hatom] using h.symm
+      exact absurd h' (atomAt_ne_int k' fk' pk' [] _ _)
+    · intro h; simp [vpair] at h
+  · constructor
+    · intro h; rw [hash_singleton k fk pk] at h; simp at h
+    · intro h; exact absurd h.symm (plain_den_ne_value x' wx' fx' px' _ _)
+  · constructor
+    · rintro ⟨h, _⟩
+      rw [hash_singleton k fk pk] at h
+      have h' : atomAt k [] = .tup [("int", .num i'), ("seed", .set [])] := by
+        simpa [intSeed, hatom] using h
+      exact absurd h' (atomAt_ne_int k fk pk [] _ _)
+    · intro h; simp [vpair] at h
+  · have hk := H k k' dk dk' wk wk' fk fk' pk pk' [] []
+    rw [hk]
+    constructor
+    · rintro ⟨⟨_, h1⟩, h2⟩; rw [h1, h2]
+    · intro h; obtain ⟨h1, h2⟩ := vpair_inj h
+      exact ⟨⟨rfl, h1⟩, h2⟩
+
+def strC (off : Int) : List Int → List (V × V)
+  | [] => []
+  | c :: r => if c < 0 then strC (off + 1) r
+              else (atomAt (.charT off c) [], vpair "@char" (.num off) (.num c)) :: strC (off + 1) r
+def bytesC (off : Int) : List Int → List (V × V)
+  | [] => []
+  | c :: r => (atomAt (.byteT off c) [], vpair "@byte" (.num off) (.num c)) :: bytesC (off + 1) r
+
+/-- the contributions of the members of a (non-union) set representation -/
+def contribs : Rep → List (V × V)
+  | .true_ => [(atomAt (.gtuple []) [], .tup [])]
+  | .generic xs => xs.map (fun x => (atomOf x, den x))
+  | .str s off _ => strC off s
+  | .bytes b off => bytesC off b
+  | .array vs off _ => (idxItems off vs).map (fun p => (atomAt p.2 (intSeed p.1 []), vpair "@item" (.num p.1) (den p.2)))
+  | .dict m => (entries m).map (fun e => (atomAt e.2 (hashG true e.1 []), entryDen e))
+  | .relation ns rows => (rowTs ns rows).map (fun t => (atomAt t [], den t))
+  | _ => []
+
+theorem strC_snd : ∀ (s : List Int) (off : Int), (strC off s).map (·.2) = strMembers off s
+  | [], _ => rfl
+  | c :: r, off => by
+    simp only [strC, strMembers]
+    split <;> simp [strC_snd r (off + 1)]
+
+theorem bytesC_snd : ∀ (s : List Int) (off : Int), (bytesC off s).map (·.2) = bytesMembers off s
+  | [], _ => rfl
+  | c :: r, off => by simp [bytesC, bytesMembers, bytesC_snd r (off + 1)]
+
+theorem strC_form : ∀ (s : List Int) (off : Int) (p : V × V), p ∈ strC off s →
+    ∃ i c, off ≤ i ∧ 0 ≤ c ∧ c ∈ s ∧ p = (atomAt (.charT i c) [], vpair "@char" (.num i) (.num c))
+  | [], _, _, h => by simp [strC] at h
+  | d :: r, off, p, h => by
+    simp only [strC] at h
+    by_cases hd : d < 0
+    · simp only [hd, if_true] at h
+      obtain ⟨i, c, h1, h2, h3, h4⟩ := strC_form r (off + 1) p h
+      exact ⟨i, c, by omega, h2, List.mem_cons_of_mem _ h3, h4⟩
+    · simp only [hd, if_false, List.mem_cons] at h
+      rcases h with h | h
+      · exact ⟨off, d, Int.le_refl _, by omega, by simp, h⟩
+      · obtain ⟨i, c, h1, h2, h3, h4⟩ := strC_form r (off + 1) p h
+        exact ⟨i, c, by omega, h2, List.mem_cons_of_mem _ h3, h4⟩
+
+theorem bytesC_form : ∀ (s : List Int) (off : Int) (p : V × V), p ∈ bytesC off s →
+    ∃ i c, off ≤ i ∧ c ∈ s ∧ p = (atomAt (.byteT i c) [], vpair "@byte" (.num i) (.num c))
+  | [], _, _, h => by simp [bytesC] at h
+  | d :: r, off, p, h => by
+    simp only [bytesC, List.mem_cons] at h
+    rcases h with h | h
+    · exact ⟨off, d, Int.le_refl _, by simp, h⟩
+    · obtain ⟨i, c, h1, h3, h4⟩ := bytesC_form r (off + 1) p h
+      exact ⟨i, c, by omega, List.mem_cons_of_mem _ h3, h4⟩
+
+theorem mk_singleton (x : V) : mk [x] = [x] := by simp [mk, ins]
+
+theorem strMemXor_eq_mk : ∀ (s : List Int) (off : Int), strMemXor off s = mk ((strC off s).map (·.1))
+  | [], _ => rfl
+  | c :: r, off => by
+    simp only [strMemXor, strC]
+    by_cases hc : c < 0
+    · simp only [hc, if_true]; exact strMemXor_eq_mk r (off + 1)
+    · simp only [hc, if_false, List.map_cons]
+      rw [strMemXor_eq_mk r (off + 1)]
+      have : hatom "charT" (V.set [V.num off, V.num c]) [] = mk [atomAt (.charT off c) []] := by
+        rw [mk_singleton]; simp [atomAt, hashG, hatom]
+      rw [this, hxor_mk_disjoint]
+      · rfl
+      · intro x hx hx'
+        simp only [List.mem_singleton] at hx
+        obtain ⟨p, hp, e⟩ := List.mem_map.1 hx'
+        obtain ⟨i, c', h1, _, _, h4⟩ := strC_form r (off + 1) p hp
+        rw [h4] at e
+        rw [hx] at e
+        simp [atomAt, hashG, hatom] at e
+        omega
+
+theorem bytesMemXor_eq_mk : ∀ (s : List Int) (off : Int), bytesMemXor off s = mk ((bytesC off s).map (·.1))
+  | [], _ => rfl
+  | c :: r, off => by
+    simp only [bytesMemXor, bytesC, List.map_cons]
+    rw [bytesMemXor_eq_mk r (off + 1)]
+    have : hatom "byteT" (V.set [V.num off, V.num c]) [] = mk [atomAt (.byteT off c) []] := by
+      rw [mk_singleton]; simp [atomAt, hashG, hatom]
+    rw [this, hxor_mk_disjoint]
+    · rfl
+    · intro x hx hx'
+      simp only [List.mem_singleton] at hx
+      obtain ⟨p, hp, e⟩ := List.mem_map.1 hx'
+      obtain ⟨i, c', h1, _, h4⟩ := bytesC_form r (off + 1) p hp
+      rw [h4] at e
+      rw [hx] at e
+      simp [atomAt, hashG, hatom] at e
+      omega
+
+theorem mem_seqM_items : ∀ (vs : List (Option Rep)) (off : Int) (v : V),
+    v ∈ seqM "@item" off (denOpts vs) ↔ ∃ p, p ∈ idxItems off vs ∧ v = vpair "@item" (.num p.1) (den p.2)
+  | [], _, v => by simp [denOpts, seqM, idxItems]
+  | some x :: r, off, v => by
+    simp only [denOpts, seqM, idxItems, List.mem_cons, mem_seqM_items r (off + 1) v]
+    constructor
+    · rintro (h | ⟨p, hp, h⟩)
+      · exact ⟨(off, x), Or.inl rfl, h⟩
+      · exact ⟨p, Or.inr hp, h⟩
+    · rintro ⟨p, hp | hp, h⟩
+      · subst hp; exact Or.inl h
+      · exact Or.inr ⟨p, hp, h⟩
+  | none :: r, off, v => by
+    simp only [denOpts, seqM, idxItems, mem_seqM_items r (off + 1) v]
+
+/-- what is known about the contributions of a canonical fragment bucket below the depth bound -/
+theorem sub_facts (n : Nat) (ih : IHn n) (s : Rep) (k : String) (hd : depth s < n + 1) (hw : wf s = true)
+    (hf : frag s = true) (hk : bucketOfSet s = some k) (hn : 0 < n) :
+    memXor true s = mk ((contribs s).map (·.1)) ∧
+    (∀ v, v ∈ vmembers (den s) ↔ v ∈ (contribs s).map (·.2)) ∧
+    (∀ c, c ∈ contribs s → Desc n c) := by
+  have ihH := ihH_of n ih
+  cases s <;> simp [bucketOfSet] at hk
+  case true_ =>
+    refine ⟨?_, ?_, ?_⟩
+    · simp [memXor, contribs, mk_singleton, atomAt, hashG, hfin, hatom, xorAttrs, hxor, symdiff, diff, FinSet.union, ins]
+    · intro v; simp [den, vmembers, contribs]
+    · intro c hc
+      simp only [contribs, List.mem_singleton] at hc
+      subst hc
+      exact ⟨.gtuple [], [], by simpa [depth] using hn, by simp [wf, wfAttrs, namesOf, specialisable],
+        by simp [frag, fragAttrs], rfl, rfl, Or.inl ⟨rfl, by simp [den, denAttrs, V.mkTup]⟩⟩
+  case generic xs =>
+    obtain ⟨fy, ny, _, _, wy, dy, py⟩ := generic_facts n xs hd hw hf
+    have ay := atoms_nodup xs fy py ny (fun x hx y hy =>
+      memH_of n ih xs [] dy (by simp) wy rfl fy rfl py (by simp) x (by simp [hx]) y (by simp [hy]))
+    refine ⟨?_, ?_, ?_⟩
+    · simp only [memXor, contribs, List.map_map, Function.comp_def]
+      exact xorList_eq_mk xs fy py ay
+    · intro v
+      simp only [den, V.mkSet, vmembers, contribs, List.map_map, Function.comp_def, mem_mk, denList_eq_map]
+    · intro c hc
+      simp only [contribs] at hc
+      obtain ⟨x, hx, rfl⟩ := List.mem_map.1 hc
+      exact ⟨x, [], dy x hx, wfList_mem xs x wy hx, fragList_mem xs x fy hx, py x hx, rfl, Or.inl ⟨rfl, rfl⟩⟩
+  case str r off holes =>
+    refine ⟨?_, ?_, ?_⟩
+    · simp only [memXor, contribs]; exact strMemXor_eq_mk r off
+    · intro v; rw [den_str]; simp only [vmembers, contribs, strC_snd]
+    · intro c hc
+      simp only [contribs] at hc
+      obtain ⟨i, ch, _, h0, hm, rfl⟩ := strC_form r off c hc
+      have hr : ch ≤ 0x10FFFF := by
+        simp only [wf, Bool.and_eq_true] at hw
+        have := List.all_eq_true.1 hw.1.2 ch hm
+        simp at this; exact this.2
+      exact ⟨.charT i ch, [], by simpa [depth] using hn, by simp [wf, inRune]; exact ⟨h0, hr⟩, rfl, rfl, rfl,
+        Or.inl ⟨rfl, by simp [den]⟩⟩
+  case bytes b off =>
+    refine ⟨?_, ?_, ?_⟩
+    · simp only [memXor, contribs]; exact bytesMemXor_eq_mk b off
+    · intro v; rw [den_bytes]; simp only [vmembers, contribs, bytesC_snd]
+    · intro c hc
+      simp only [contribs] at hc
+      obtain ⟨i, ch, _, hm, rfl⟩ := bytesC_form b off c hc
+      have hr : inByte ch = true := by
+        simp only [wf, Bool.and_eq_true] at hw
+        exact List.all_eq_true.1 hw.2 ch hm
+      exact ⟨.byteT i ch, [], by simpa [depth] using hn, by simpa [wf] using hr, rfl, rfl, rfl,
+        Or.inl ⟨rfl, by simp [den]⟩⟩
+  case array vs off c =>
+    obtain ⟨fo, _, _, wo, _, dv⟩ := array_facts n vs off c hd hw hf
+    refine ⟨?_, ?_, ?_⟩
+    · simp only [memXor, contribs, List.map_map, Function.comp_def]
+      rw [xorOpts_eq_mk off vs [] fo]; rfl
+    · intro v
+      rw [den_array]
+      simp only [vmembers, contribs, List.map_map, Function.comp_def, mem_seqM_items, List.mem_map]
+      constructor
+      · rintro ⟨p, hp, e⟩; exact ⟨p, hp, e.symm⟩
+      · rintro ⟨p, hp, e⟩; exact ⟨p, hp, e.symm⟩
+    · intro c hc
+      simp only [contribs] at hc
+      obtain ⟨p, hp, rfl⟩ := List.mem_map.1 hc
+      have hm := idxItems_mem vs off p hp
+      obtain ⟨pp, pf⟩ := fragOpts_mem vs p.2 fo hm
+      exact ⟨p.2, intSeed p.1 [], dv p.2 hm, wfOpts_mem vs p.2 wo hm, pf, pp, rfl, Or.inr (Or.inl ⟨p.1, rfl, rfl⟩)⟩
+  case dict m =>
+    obtain ⟨_, hwd, hkn, hfd, _, F⟩ := dict_facts n m hd hw hf
+    have and' := dictAtoms_nodup m [] hfd hwd hkn (dictH_of n ih m m hd hd hw hw hf hf)
+    refine ⟨?_, ?_, ?_⟩
+    · simp only [memXor, contribs, List.map_map, Function.comp_def]
+      rw [xorDict_eq_mk m [] hfd and']; rfl
+    · intro v
+      simp only [den, V.mkSet, vmembers, contribs, List.map_map, Function.comp_def, mem_mk, denDict_eq]
+    · intro c hc
+      simp only [contribs] at hc
+      obtain ⟨e, he, rfl⟩ := List.mem_map.1 hc
+      obtain ⟨⟨a1, a2, a3, a4⟩, ⟨b1, b2, b3, b4⟩⟩ := F e he
+      exact ⟨e.2, hashG true e.1 [], b1, b2, b3, b4, rfl, Or.inr (Or.inr ⟨e.1, a1, a2, a3, a4, rfl, rfl⟩)⟩
+  case relation ns rows =>
+    obtain ⟨_, _, _, _, hdn, _, F⟩ := relation_facts n ns rows hd hw hf
+    have tfp : ∀ t, t ∈ rowTs ns rows → frag t = true ∧ plain t = true := by
+      intro t ht
+      obtain ⟨row, hr, rfl⟩ := List.mem_map.1 ht
+      exact ⟨(F row hr).2.2.1, rfl⟩
+    have an := seeded_nodup (rowTs ns rows) [] tfp (by rw [← denRows_rowTs]; exact hdn)
+      (fun x hx y hy => by
+        have := rowH_of n ih ns ns rows rows hd hd hw hw hf hf x (by simp [hx]) y (by simp [hy]) [] []
+        simpa using this)
+    refine ⟨?_, ?_, ?_⟩
+    · simp only [memXor, contribs, List.map_map, Function.comp_def]
+      exact xorRows_eq_mk ns rows [] (fun row hr => (F row hr).2.2.1) an
+    · intro v
+      simp only [den, V.mkSet, vmembers, contribs, List.map_map, Function.comp_def, mem_mk, denRows_rowTs]
+    · intro c hc
+      simp only [contribs] at hc
+      obtain ⟨t, ht, rfl⟩ := List.mem_map.1 hc
+      obtain ⟨row, hr, rfl⟩ := List.mem_map.1 ht
+      obtain ⟨a, b, c', _⟩ := F row hr
+      exact ⟨rowT ns row, [], a, b, c', rfl, rfl, Or.inl ⟨rfl, rfl⟩⟩
+
+/-! ### union sets: the whole set -/
+
+def ucontribs (bs : List (String × Rep)) : List (V × V) := bs.flatMap (fun p => contribs p.2)
+
+/-- what is known about a canonical fragment union set below the depth bound -/
+theorem union_facts (n : Nat) (ih : IHn n) (bs : List (String × Rep)) (hd : depth (.union bs) < n + 1)
+    (hw : wf (.union bs) = true) (hf : frag (.union bs) = true) :
+    0 < n ∧ (namesOf bs).Nodup ∧ wfBuckets bs = true ∧
+    ∀ p, p ∈ bs → depth p.2 < n ∧ wf p.2 = true ∧ frag p.2 = true ∧ bucketOfSet p.2 = some p.1 ∧
+      memXor true p.2 = mk ((contribs p.2).map (·.1)) ∧
+      (∀ v, v ∈ vmembers (den p.2) ↔ v ∈ (contribs p.2).map (·.2)) ∧
+      (∀ c, c ∈ contribs p.2 → Desc n c) := by
+  have hdn : depthAttrs bs < n := by simp only [depth] at hd; omega
+  have hn : 0 < n := by omega
+  have hfa : fragAttrs bs = true := by simpa [frag] using hf
+  simp only [wf, Bool.and_eq_true, decide_eq_true_eq] at hw
+  obtain ⟨⟨_, hnd⟩, hwb⟩ := hw
+  refine ⟨hn, hnd, hwb, ?_⟩
+  intro p hp
+  obtain ⟨wp, kp⟩ := wfBuckets_mem bs p hwb hp
+  have dp := depth_mem_attrs bs p hp
+  have fp := (fragAttrs_mem bs p hfa hp).2
+  obtain ⟨A, B, C⟩ := sub_facts n ih p.2 p.1 (by omega) wp fp kp hn
+  exact ⟨by omega, wp, fp, kp, A, B, C⟩
+
+theorem mem_ucontribs (bs : List (String × Rep)) (c : V × V) :
+    c ∈ ucontribs bs ↔ ∃ p, p ∈ bs ∧ c ∈ contribs p.2 := by
+  simp [ucontribs, List.mem_flatMap]
+
+theorem xorBuckets_eq_mk : ∀ (bs : List (String × Rep)),
+    (∀ p, p ∈ bs → memXor true p.2 = mk ((contribs p.2).map (·.1))) →
+    bs.Pairwise (fun p q => ∀ c, c ∈ contribs p.2 → ∀ c', c' ∈ contribs q.2 → c.1 ≠ c'.1) →
+    xorBuckets true bs = mk ((ucontribs bs).map (·.1))
+  | [], _, _ => rfl
+  | (k, s) :: r, hm, hp => by
+    rw [List.pairwise_cons] at hp
+    simp only [xorBuckets, ucontribs, List.flatMap_cons, List.map_append]
+    rw [hm (k, s) (by simp), xorBuckets_eq_mk r (fun p h => hm p (List.mem_cons_of_mem _ h)) hp.2,
+      hxor_mk_disjoint]
+    · rfl
+    · intro x hx hx'
+      obtain ⟨c, hc, e⟩ := List.mem_map.1 hx
+      obtain ⟨c', hc', e'⟩ := List.mem_map.1 hx'
+      obtain ⟨q, hq, hcq⟩ := (mem_ucontribs r c').1 hc'
+      exact hp.1 q hq c hc c' hcq (by rw [e, e'])
+
+/-- the class of the member denotation of a contribution -/
+theorem contrib_bucket (s : Rep) (k : String) (hw : wf s = true) (hk : bucketOfSet s = some k)
+    (B : ∀ v, v ∈ vmembers (den s) ↔ v ∈ (contribs s).map (·.2)) (c : V × V) (hc : c ∈ contribs s) :
+    bucketV c.2 = bkOfSet s :=
+  (sub_members_bucket s k hw hk).2 c.2 ((B c.2).2 (List.mem_map.2 ⟨c, hc, rfl⟩))
+
+/-- everything the main theorem needs about the contributions of one union set -/
+theorem union_contribs (n : Nat) (ih : IHn n) (bs : List (String × Rep)) (hd : depth (.union bs) < n + 1)
+    (hw : wf (.union bs) = true) (hf : frag (.union bs) = true) :
+    xorBuckets true bs = mk ((ucontribs bs).map (·.1)) ∧
+    (∀ v, v ∈ denBuckets bs ↔ v ∈ (ucontribs bs).map (·.2)) ∧
+    (∀ c, c ∈ ucontribs bs → Desc n c) ∧
+    (∃ c1 c2, c1 ∈ ucontribs bs ∧ c2 ∈ ucontribs bs ∧ bucketV c1.2 ≠ bucketV c2.2) := by
+  obtain ⟨hn, hnd, hwb, F⟩ := union_facts n ih bs hd hw hf
+  have H := ihH_of n ih
+  refine ⟨?_, ?_, ?_, ?_⟩
+  · apply xorBuckets_eq_mk bs (fun p hp => (F p hp).2.2.2.2.1)
+    have hpw : bs.Pairwise (fun p q => p.1 ≠ q.1) := by
+      have : (bs.map (·.1)).Pairwise (· ≠ ·) := hnd
+      rwa [List.pairwise_map] at this
+    apply List.Pairwise.imp_of_mem _ hpw
+    intro p q hp hq hne c hc c' hc' e
+    obtain ⟨_, wp, _, kp, _, Bp, Cp⟩ := F p hp
+    obtain ⟨_, wq, _, kq, _, Bq, Cq⟩ := F q hq
+    have := (desc_iff n H c c' (Cp c hc) (Cq c' hc')).1 e
+    have h1 := contrib_bucket p.2 p.1 wp kp Bp c hc
+    have h2 := contrib_bucket q.2 q.1 wq kq Bq c' hc'
+    rw [this] at h1
+    exact hne (bkOfSet_key p.2 q.2 p.1 q.1 wp wq kp kq (h1.symm.trans h2))
+  · intro v
+    rw [mem_denBuckets]
+    constructor
+    · rintro ⟨p, hp, hv⟩
+      obtain ⟨c, hc, e⟩ := List.mem_map.1 (((F p hp).2.2.2.2.2.1 v).1 hv)
+      exact List.mem_map.2 ⟨c, (mem_ucontribs bs c).2 ⟨p, hp, hc⟩, e⟩
+    · intro hv
+      obtain ⟨c, hc, e⟩ := List.mem_map.1 hv
+      obtain ⟨p, hp, hcp⟩ := (mem_ucontribs bs c).1 hc
+      exact ⟨p, hp, ((F p hp).2.2.2.2.2.1 v).2 (List.mem_map.2 ⟨c, hcp, e⟩)⟩
+  · intro c hc
+    obtain ⟨p, hp, hcp⟩ := (mem_ucontribs bs c).1 hc
+    exact (F p hp).2.2.2.2.2.2 c hcp
+  · obtain ⟨p, q, v1, v2, hp, hq, _, h1, h2, _, _, hne⟩ := union_two_members bs hw
+    obtain ⟨c1, hc1, e1⟩ := List.mem_map.1 (((F p hp).2.2.2.2.2.1 v1).1 h1)
+    obtain ⟨c2, hc2, e2⟩ := List.mem_map.1 (((F q hq).2.2.2.2.2.1 v2).1 h2)
+    exact ⟨c1, c2, (mem_ucontribs bs c1).2 ⟨p, hp, hc1⟩, (mem_ucontribs bs c2).2 ⟨q, hq, hc2⟩, by rw [e1, e2]; exact hne⟩
+
+/-- the hash of a union set identifies its denotation -/
+theorem union_core (n : Nat) (ih : IHn n) (bs bs' : List (String × Rep))
+    (hd : depth (.union bs) < n + 1) (hd' : depth (.union bs') < n + 1)
+    (hw : wf (.union bs) = true) (hw' : wf (.union bs') = true)
+    (hf : frag (.union bs) = true) (hf' : frag (.union bs') = true) :
+    xorBuckets true bs = xorBuckets true bs' ↔ mk (denBuckets bs) = mk (denBuckets bs') := by
+  obtain ⟨A, B, C, _⟩ := union_contribs n ih bs hd hw hf
+  obtain ⟨A', B', C', _⟩ := union_contribs n ih bs' hd' hw' hf'
+  rw [A, A', mk_eq_iff, mk_eq_iff]
+  have : (∀ v, v ∈ denBuckets bs ↔ v ∈ denBuckets bs') ↔
+      (∀ v, v ∈ (ucontribs bs).map (·.2) ↔ v ∈ (ucontribs bs').map (·.2)) := by
+    constructor
+    · intro h v; rw [← B, ← B', h]
+    · intro h v; rw [B, B', h]
+  rw [this]
+  apply map_mem_transfer
+  intro c hc c' hc'
+  exact desc_iff n (ihH_of n ih) c c' (C c hc) (C' c' hc')
+
+/-! #### `UnionSet.Equal`: bucket by bucket -/
+
+theorem den_sub_mkSet (s : Rep) (k : String) (hk : bucketOfSet s = some k) : ∃ l, den s = V.mkSet l := by
+  cases s <;> simp [bucketOfSet] at hk
+  case true_ => exact ⟨[.tup []], by simp [den, V.mkSet, mk_singleton]⟩
+  case generic xs => exact ⟨_, by rw [den]⟩
+  case str r off h => exact ⟨_, by rw [den]⟩
+  case bytes b off => exact ⟨_, by rw [den]⟩
+  case array vs off c => exact ⟨_, by rw [den]⟩
+  case dict m => exact ⟨_, by rw [den]⟩
+  case relation ns rows => exact ⟨_, by rw [den]⟩
+
+theorem den_eq_of_vmembers (s s' : Rep) (k k' : String) (hk : bucketOfSet s = some k)
+    (hk' : bucketOfSet s' = some k') (h : ∀ v, v ∈ vmembers (den s) ↔ v ∈ vmembers (den s')) : den s = den s' := by
+  obtain ⟨l, e⟩ := den_sub_mkSet s k hk
+  obtain ⟨l', e'⟩ := den_sub_mkSet s' k' hk'
+  rw [e, e'] at h ⊢
+  simp only [V.mkSet, vmembers] at h ⊢
+  rw [sorted_ext _ _ (sorted_mk l) (sorted_mk l') h]
+
+theorem mem_same_key (bs : List (String × Rep)) (hn : (namesOf bs).Nodup) (p q : String × Rep)
+    (hp : p ∈ bs) (hq : q ∈ bs) (h : p.1 = q.1) : p = q := by
+  have h1 := lookupAttr_some_of_mem bs p.1 p.2 hn hp
+  have h2 := lookupAttr_some_of_mem bs q.1 q.2 hn hq
+  rw [h, h2] at h1
+  cases p; cases q
+  simp at h h1 ⊢
+  exact ⟨h, h1.symm⟩
+
+/-- two canonical union sets with the same members have the same buckets -/
+theorem union_match (bs bs' : List (String × Rep)) (hn' : (namesOf bs').Nodup)
+    (hn : (namesOf bs).Nodup)
+    (hwb : wfBuckets bs = true) (hwb' : wfBuckets bs' = true)
+    (hm : ∀ v, v ∈ denBuckets bs ↔ v ∈ denBuckets bs') :
+    ∀ p, p ∈ bs → ∃ q, q ∈ bs' ∧ q.1 = p.1 ∧ den p.2 = den q.2 := by
+  intro p hp
+  obtain ⟨wp, kp⟩ := wfBuckets_mem bs p hwb hp
+  obtain ⟨ne, bp⟩ := sub_members_bucket p.2 p.1 wp kp
+  obtain ⟨v0, hv0⟩ := List.exists_mem_of_ne_nil _ ne
+  obtain ⟨q, hq, hv0q⟩ := (mem_denBuckets bs' v0).1 ((hm v0).1 ((mem_denBuckets bs v0).2 ⟨p, hp, hv0⟩))
+  obtain ⟨wq, kq⟩ := wfBuckets_mem bs' q hwb' hq
+  obtain ⟨_, bq⟩ := sub_members_bucket q.2 q.1 wq kq
+  have hkey : p.1 = q.1 := bkOfSet_key p.2 q.2 p.1 q.1 wp wq kp kq ((bp v0 hv0).symm.trans (bq v0 hv0q))
+  refine ⟨q, hq, hkey.symm, ?_⟩
+  apply den_eq_of_vmembers p.2 q.2 p.1 q.1 kp kq
+  intro v
+  constructor
+  · intro hv
+    obtain ⟨q', hq', hvq'⟩ := (mem_denBuckets bs' v).1 ((hm v).1 ((mem_denBuckets bs v).2 ⟨p, hp, hv⟩))
+    obtain ⟨wq', kq'⟩ := wfBuckets_mem bs' q' hwb' hq'
+    obtain ⟨_, bq'⟩ := sub_members_bucket q'.2 q'.1 wq' kq'
+    have : p.1 = q'.1 := bkOfSet_key p.2 q'.2 p.1 q'.1 wp wq' kp kq' ((bp v hv).symm.trans (bq' v hvq'))
+    have := mem_same_key bs' hn' q' q hq' hq (this.symm.trans hkey)
+    rw [← this]; exact hvq'
+  · intro hv
+    obtain ⟨p', hp', hvp'⟩ := (mem_denBuckets bs v).1 ((hm v).2 ((mem_denBuckets bs' v).2 ⟨q, hq, hv⟩))
+    obtain ⟨wp', kp'⟩ := wfBuckets_mem bs p' hwb hp'
+    obtain ⟨_, bp'⟩ := sub_members_bucket p'.2 p'.1 wp' kp'
+    have : q.1 = p'.1 := bkOfSet_key q.2 p'.2 q.1 p'.1 wq wp' kq kp' ((bq v hv).symm.trans (bp' v hvp'))
+    have := mem_same_key bs hn p' p hp' hp (this.symm.trans hkey.symm)
+    rw [← this]; exact hvp'
+
+theorem union_match_length (bs bs' : List (String × Rep)) (hn' : (namesOf bs').Nodup)
+    (hn : (namesOf bs).Nodup) (hwb : wfBuckets bs = true) (hwb' : wfBuckets bs' = true)
+    (hm : ∀ v, v ∈ denBuckets bs ↔ v ∈ denBuckets bs') : bs.length = bs'.length := by
+  have h1 := union_match bs bs' hn' hn hwb hwb' hm
+  have h2 := union_match bs' bs hn hn' hwb' hwb (fun v => (hm v).symm)
+  have := length_eq_of_same_members (namesOf bs) (namesOf bs') hn hn' (by
+    intro x
+    simp only [namesOf, List.mem_map]
+    constructor
+    · rintro ⟨p, hp, rfl⟩
+      obtain ⟨q, hq, e, _⟩ := h1 p hp
+      exact ⟨q, hq, e⟩
+    · rintro ⟨p, hp, rfl⟩
+      obtain ⟨q, hq, e, _⟩ := h2 p hp
+      exact ⟨q, hq, e⟩)
+  simpa [namesOf] using this
+
+theorem bucketsAllIn_iff : ∀ (bs bs' : List (String × Rep)),
+    bucketsAllIn true bs bs' = true ↔ ∀ p, p ∈ bs → ∃ s', lookupAttr p.1 bs' = some s' ∧ equal p.2 s' = true
+  | [], _ => by simp [bucketsAllIn]
+  | (k, s) :: r, bs' => by
+    simp only [bucketsAllIn, Bool.and_eq_true, bucketsAllIn_iff r bs', List.mem_cons]
+    constructor
+    · rintro ⟨h1, h2⟩ p (hp | hp)
+      · subst hp
+        cases hl : lookupAttr k bs' with
+        | none => simp [hl] at h1
+        | some s' => simp only [hl] at h1; exact ⟨s', rfl, h1⟩
+      · exact h2 p hp
+    · intro h
+      refine ⟨?_, fun p hp => h p (Or.inr hp)⟩
+      obtain ⟨s', hl, he⟩ := h (k, s) (Or.inl rfl)
+      simp only [hl]; exact he
+
+/-- `UnionSet.Equal` on canonical union sets is equality of denotations, given that `Equal` is on the buckets -/
+theorem union_equal_iff (bs bs' : List (String × Rep)) (hn : (namesOf bs).Nodup) (hn' : (namesOf bs').Nodup)
+    (hwb : wfBuckets bs = true) (hwb' : wfBuckets bs' = true)
+    (E : ∀ p, p ∈ bs → ∀ q, q ∈ bs' → (equal p.2 q.2 = true ↔ den p.2 = den q.2)) :
+    equal (.union bs) (.union bs') = true ↔ mk (denBuckets bs) = mk (denBuckets bs') := by
+  simp only [equal, equalG, Bool.and_eq_true, beq_iff_eq, bucketsAllIn_iff]
+  rw [mk_eq_iff]
+  constructor
+  · rintro ⟨hlen, hall⟩
+    have fwd : ∀ p, p ∈ bs → ∃ q, q ∈ bs' ∧ q.1 = p.1 ∧ den p.2 = den q.2 := by
+      intro p hp
+      obtain ⟨s', hl, he⟩ := hall p hp
+      have hq := lookupAttr_mem bs' p.1 s' hl
+      exact ⟨(p.1, s'), hq, rfl, (E p hp (p.1, s') hq).1 he⟩
+    have keys : ∀ x, x ∈ namesOf bs' → x ∈ namesOf bs := by
+      apply subset_of_nodup_length (namesOf bs) (namesOf bs') hn
+      · intro x hx
+        simp only [namesOf, List.mem_map] at hx ⊢
+        obtain ⟨p, hp, rfl⟩ := hx
+        obtain ⟨q, hq, e, _⟩ := fwd p hp
+        exact ⟨q, hq, e⟩
+      · simp [namesOf, hlen]
+    intro v
+    rw [mem_denBuckets, mem_denBuckets]
+    constructor
+    · rintro ⟨p, hp, hv⟩
+      obtain ⟨q, hq, _, e⟩ := fwd p hp
+      exact ⟨q, hq, by rw [← e]; exact hv⟩
+    · rintro ⟨q, hq, hv⟩
+      have : q.1 ∈ namesOf bs := keys q.1 (by simp only [namesOf, List.mem_map]; exact ⟨q, hq, rfl⟩)
+      simp only [namesOf, List.mem_map] at this
+      obtain ⟨p, hp, e⟩ := this
+      obtain ⟨q', hq', e', ed⟩ := fwd p hp
+      have := mem_same_key bs' hn' q' q hq' hq (e'.trans e)
+      rw [this] at ed
+      exact ⟨p, hp, by rw [ed]; exact hv⟩
+  · intro hm
+    refine ⟨union_match_length bs bs' hn' hn hwb hwb' hm, ?_⟩
+    intro p hp
+    obtain ⟨q, hq, e, ed⟩ := union_match bs bs' hn' hn hwb hwb' hm p hp
+    refine ⟨q.2, ?_, (E p hp q hq).2 ed⟩
+    rw [← e]
+    exact lookupAttr_some_of_mem bs' q.1 q.2 hn' hq
+
+/-- a canonical union set is determined by its denotation up to the buckets' denotations -/
+theorem union_den_inj (bs bs' : List (String × Rep)) (wa : wf (.union bs) = true) (wb : wf (.union bs') = true)
+    (h : den (.union bs) = den (.union bs')) :
+    bs.length = bs'.length ∧ ∀ k, (lookupAttr k bs).map den = (lookupAttr k bs').map den := by
+  simp only [den, V.mkSet, V.set.injEq] at h
+  have hm := (FinSet.mk_eq_iff _ _).1 h
+  simp only [wf, Bool.and_eq_true, decide_eq_true_eq] at wa wb
+  obtain ⟨⟨_, hn⟩, hwb⟩ := wa
+  obtain ⟨⟨_, hn'⟩, hwb'⟩ := wb
+  have h1 := union_match bs bs' hn' hn hwb hwb' hm
+  have h2 := union_match bs' bs hn hn' hwb' hwb (fun v => (hm v).symm)
+  refine ⟨union_match_length bs bs' hn' hn hwb hwb' hm, ?_⟩
+  intro k
+  cases hl : lookupAttr k bs with
+  | some s =>
+    obtain ⟨q, hq, e, ed⟩ := h1 (k, s) (lookupAttr_mem bs k s hl)
+    have : lookupAttr k bs' = some q.2 := by
+      have := lookupAttr_some_of_mem bs' q.1 q.2 hn' hq
+      rwa [e] at this
+    rw [this]; simp [ed]
+  | none =>
+    cases hl' : lookupAttr k bs' with
+    | none => rfl
+    | some s' =>
+      obtain ⟨q, hq, e, _⟩ := h2 (k, s') (lookupAttr_mem bs' k s' hl')
+      have := lookupAttr_some_of_mem bs q.1 q.2 hn hq
+      rw [e] at this
+      simp at this
+      rw [hl] at this
+      cases this
+
+/-! #### reading the class of a contribution off the seed of its atom -/
+
+theorem kind1_desc (n : Nat) (x : Rep) (hd : depth x < n) (hw : wf x = true) (hf : frag x = true)
+    (hp : plain x = true) : Desc n (atomAt x [], den x) :=
+  ⟨x, [], hd, hw, hf, hp, rfl, Or.inl ⟨rfl, rfl⟩⟩
+
+theorem desc_seed_nil (n : Nat) (H : HashIH n) (c : V × V) (hc : Desc n c) (x : Rep) (hd : depth x < n)
+    (hw : wf x = true) (hf : frag x = true) (hp : plain x = true) (e : c.1 = atomAt x []) : c.2 = den x :=
+  (desc_iff n H c (atomAt x [], den x) hc (kind1_desc n x hd hw hf hp)).1 e
+
+theorem hashG_ne_nil (k : Rep) (hf : frag k = true) (hp : plain k = true) (s : HV) : hashG true k s ≠ [] := by
+  rw [hash_singleton k hf hp]; simp
+
+theorem intSeed_ne_hash (i : Int) (s s' : HV) (k : Rep) (hf : frag k = true) (hp : plain k = true) :
+    intSeed i s ≠ hashG true k s' := by
+  intro h
+  rw [hash_singleton k hf hp] at h
+  have h' : atomAt k s' = .tup [("int", .num i), ("seed", .set s)] := by
+    simpa [intSeed, hatom] using h.symm
+  exact atomAt_ne_int k hf hp s' _ _ h'
+
+theorem desc_seed_int (n : Nat) (c : V × V) (hc : Desc n c) (x : Rep) (hf : frag x = true) (hp : plain x = true)
+    (j : Int) (s : HV) (e : c.1 = atomAt x (intSeed j s)) : bucketV c.2 = .i := by
+  obtain ⟨y, sd, _, _, fy, py, e1, k1⟩ := hc
+  have hs : sd = intSeed j s := atomAt_seed_inj y x fy py hf hp _ _ (e1.symm.trans e)
+  rcases k1 with ⟨s0, _⟩ | ⟨i, _, d0⟩ | ⟨k, _, _, fk, pk, s0, _⟩
+  · rw [s0] at hs; simp [intSeed, hatom] at hs
+  · rw [d0]; exact bucketV_item _ _
+  · rw [s0] at hs; exact absurd hs.symm (intSeed_ne_hash j s [] k fk pk)
+
+theorem desc_seed_hash (n : Nat) (c : V × V) (hc : Desc n c) (x : Rep) (hf : frag x = true) (hp : plain x = true)
+    (k' : Rep) (fk' : frag k' = true) (pk' : plain k' = true) (s : HV) (e : c.1 = atomAt x (hashG true k' s)) :
+    bucketV c.2 = .e := by
+  obtain ⟨y, sd, _, _, fy, py, e1, k1⟩ := hc
+  have hs : sd = hashG true k' s := atomAt_seed_inj y x fy py hf hp _ _ (e1.symm.trans e)
+  rcases k1 with ⟨s0, _⟩ | ⟨i, s0, _⟩ | ⟨k, _, _, _, _, _, d0⟩
+  · rw [s0] at hs; exact absurd hs.symm (hashG_ne_nil k' fk' pk' s)
+  · rw [s0] at hs; exact absurd hs (intSeed_ne_hash i [] s k' fk' pk')
+  · rw [d0]; exact bucketV_value _ _
+
+/-- two contributions of different classes whose atoms carry the same seed: the seed is 0 -/
+theorem desc_same_seed (n : Nat) (c1 c2 : V × V) (h1 : Desc n c1) (h2 : Desc n c2) (x1 x2 : Rep)
+    (f1 : frag x1 = true) (p1 : plain x1 = true) (f2 : frag x2 = true) (p2 : plain x2 = true) (sd : HV)
+    (e1 : c1.1 = atomAt x1 sd) (e2 : c2.1 = atomAt x2 sd) (hne : bucketV c1.2 ≠ bucketV c2.2) : sd = [] := by
+  obtain ⟨y1, s1, _, _, fy1, py1, a1, k1⟩ := h1
+  obtain ⟨y2, s2, _, _, fy2, py2, a2, k2⟩ := h2
+  have hs1 : s1 = sd := atomAt_seed_inj y1 x1 fy1 py1 f1 p1 _ _ (a1.symm.trans e1)
+  have hs2 : s2 = sd := atomAt_seed_inj y2 x2 fy2 py2 f2 p2 _ _ (a2.symm.trans e2)
+  rcases k1 with ⟨s0, _⟩ | ⟨i, s0, d0⟩ | ⟨k, _, _, fk, pk, s0, d0⟩
+  · rw [← hs1, s0]
+  · rcases k2 with ⟨s0', _⟩ | ⟨i', s0', d0'⟩ | ⟨k', _, _, fk', pk', s0', d0'⟩
+    · rw [← hs2, s0']
+    · rw [d0, d0', bucketV_item, bucketV_item] at hne; exact absurd rfl hne
+    · rw [← hs1, s0] at hs2; rw [s0'] at hs2
+      exact absurd hs2.symm (intSeed_ne_hash i [] [] k' fk' pk')
+  · rcases k2 with ⟨s0', _⟩ | ⟨i', s0', d0'⟩ | ⟨k', _, _, fk', pk', s0', d0'⟩
+    · rw [← hs2, s0']
+    · rw [← hs1, s0] at hs2; rw [s0'] at hs2
+      exact absurd hs2 (intSeed_ne_hash i' [] [] k fk pk)
+    · rw [d0, d0', bucketV_value, bucketV_value] at hne; exact absurd rfl hne
+
+theorem desc_atom (n : Nat) (c : V × V) (hc : Desc n c) : ∃ x sd, frag x = true ∧ plain x = true ∧ c.1 = atomAt x sd := by
+  obtain ⟨y, sd, _, _, fy, py, e1, _⟩ := hc
+  exact ⟨y, sd, fy, py, e1⟩
+
 theorem main_frag : ∀ (n : Nat) (a b : Rep), depth a < n → depth b < n → wf a = true → wf b = true →
     frag a = true → frag b = true → MainAt a b := by
   intro n
@@ -2047,27 +3700,8 @@ theorem main_frag : ∀ (n : Nat) (a b : Rep), depth a < n → depth b < n → w
     intro a b ha hb wa wb fa fb
     have htag : den a = den b → ctorTag a = ctorTag b := by
       intro h; rw [← vtag_den a wa fa, ← vtag_den b wb fb, h]
-    -- the induction hypothesis for plain values, any seeds
-    have ihH : ∀ x y, depth x < n → depth y < n → wf x = true → wf y = true → frag x = true → frag y = true →
-        plain x = true → plain y = true →
-        ∀ S S' : HV, (hashG true x S = hashG true y S' ↔ (S = S' ∧ den x = den y)) :=
-      fun x y dx dy wx wy fx fy px py => (ih x y dx dy wx wy fx fy).2 px py
-    -- hash injectivity among members of generic sets below the bound
-    have memH : ∀ (xs ys : List Rep), (∀ x, x ∈ xs → depth x < n) → (∀ x, x ∈ ys → depth x < n) →
-        wfList xs = true → wfList ys = true → fragList xs = true → fragList ys = true →
-        (∀ x, x ∈ xs → plain x = true) → (∀ x, x ∈ ys → plain x = true) →
-        ∀ x, x ∈ xs ++ ys → ∀ y, y ∈ xs ++ ys → (hashG true x [] = hashG true y [] ↔ den x = den y) := by
-      intro xs ys dx dy wx wy fx fy ppx ppy x hx y hy
-      have px : depth x < n ∧ wf x = true ∧ frag x = true ∧ plain x = true := by
-        rcases List.mem_append.1 hx with h | h
-        · exact ⟨dx x h, wfList_mem xs x wx h, fragList_mem xs x fx h, ppx x h⟩
-        · exact ⟨dy x h, wfList_mem ys x wy h, fragList_mem ys x fy h, ppy x h⟩
-      have py : depth y < n ∧ wf y = true ∧ frag y = true ∧ plain y = true := by
-        rcases List.mem_append.1 hy with h | h
-        · exact ⟨dx y h, wfList_mem xs y wx h, fragList_mem xs y fx h, ppx y h⟩
-        · exact ⟨dy y h, wfList_mem ys y wy h, fragList_mem ys y fy h, ppy y h⟩
-      have := ihH x y px.1 py.1 px.2.1 py.2.1 px.2.2.1 py.2.2.1 px.2.2.2 py.2.2.2 [] []
-      simpa using this
+    have ihH := ihH_of n ih
+    have memH := memH_of n ih
     -- the empty tuple as a possible member of a generic set
     have unitFacts : 0 < n → (∀ x, x ∈ [Rep.gtuple []] → depth x < n) ∧ wfList [Rep.gtuple []] = true ∧
         fragList [Rep.gtuple []] = true ∧ (∀ x, x ∈ [Rep.gtuple []] → plain x = true) := by
@@ -2075,27 +3709,221 @@ theorem main_frag : ∀ (n : Nat) (a b : Rep), depth a < n → depth b < n → w
       refine ⟨?_, by simp [wfList, wf, wfAttrs, namesOf, specialisable], by simp [fragList, frag, fragAttrs], ?_⟩
       · intro x hx; simp at hx; subst hx; simpa [depth] using hn
       · intro x hx; simp at hx; subst hx; rfl
-    -- what the induction hypothesis says about keys and values of two dictionaries
-    have dictH : ∀ (m m' : List (Rep × List Rep)), depth (.dict m) < n + 1 → depth (.dict m') < n + 1 →
-        wf (.dict m) = true → wf (.dict m') = true → frag (.dict m) = true → frag (.dict m') = true →
-        DictIH m m' := by
-      intro m m' d1 d2 w1 w2 f1 f2 e he e' he'
-      obtain ⟨_, _, _, _, _, F1⟩ := dict_facts n m d1 w1 f1
-      obtain ⟨_, _, _, _, _, F2⟩ := dict_facts n m' d2 w2 f2
-      have fe : (depth e.1 < n ∧ wf e.1 = true ∧ frag e.1 = true ∧ plain e.1 = true) ∧
-          (depth e.2 < n ∧ wf e.2 = true ∧ frag e.2 = true ∧ plain e.2 = true) := by
-        rcases List.mem_append.1 he with h | h
-        · exact F1 e h
-        · exact F2 e h
-      have fe' : (depth e'.1 < n ∧ wf e'.1 = true ∧ frag e'.1 = true ∧ plain e'.1 = true) ∧
-          (depth e'.2 < n ∧ wf e'.2 = true ∧ frag e'.2 = true ∧ plain e'.2 = true) := by
-        rcases List.mem_append.1 he' with h | h
-        · exact F1 e' h
-        · exact F2 e' h
-      obtain ⟨⟨a1, a2, a3, a4⟩, ⟨b1, b2, b3, b4⟩⟩ := fe
-      obtain ⟨⟨c1, c2, c3, c4⟩, ⟨d1', d2', d3, d4⟩⟩ := fe'
-      exact ⟨ihH e.1 e'.1 a1 c1 a2 c2 a3 c3 a4 c4, ihH e.2 e'.2 b1 d1' b2 d2' b3 d3 b4 d4,
-        (ih e.1 e'.1 a1 c1 a2 c2 a3 c3).1, (ih e.2 e'.2 b1 d1' b2 d2' b3 d3).1⟩
+    have dictH := dictH_of n ih
+    have relH := relH_of n ih
+    have rowH := rowH_of n ih
+    -- the hash of a union set differs from the hash of every other plain value
+    have unionNe : ∀ (bs : List (String × Rep)) (b : Rep), depth (.union bs) < n + 1 → depth b < n + 1 →
+        wf (.union bs) = true → wf b = true → frag (.union bs) = true → frag b = true →
+        (∀ bs', b ≠ .union bs') → plain b = true →
+        ∀ s s' : HV, hashG true (.union bs) s ≠ hashG true b s' := by
+      intro bs b du db wu wb' fu fb' hnu pb s s' h
+      obtain ⟨A, _, C, c1, c2, hc1, hc2, hne⟩ := union_contribs n ih bs du wu fu
+      have hn0 : 0 < n := (union_facts n ih bs du wu fu).1
+      simp only [hashG, hfin, if_true] at h
+      rw [A] at h
+      have mem : ∀ c, c ∈ ucontribs bs → c.1 ∈ mk ((ucontribs bs).map (·.1)) :=
+        fun c hc => (mem_mk _ _).2 (List.mem_map.2 ⟨c, hc, rfl⟩)
+      -- if all contributions are of one class, the two of different classes are contradictory
+      have uni : ∀ X : BK, (∀ c, c ∈ ucontribs bs → bucketV c.2 = X) → False :=
+        fun X hX => hne ((hX c1 hc1).trans (hX c2 hc2).symm)
+      cases b <;> simp [plain] at pb
+      case num x => simp [hashG, hatom] at h
+      case charT i c => simp [hashG, hatom] at h
+      case byteT i c => simp [hashG, hatom] at h
+      case str r off hh => simp [hashG, hatom] at h
+      case bytes r off => simp [hashG, hatom] at h
+      case union bs' => exact hnu bs' rfl
+      case empty =>
+        simp [hashG, hfin, hatom] at h
+        have := mem c1 hc1
+        rw [h.1] at this
+        simp at this
+      case true_ =>
+        simp [hashG, hfin, hatom] at h
+        have hu : ∀ c, c ∈ ucontribs bs → c.2 = den (.gtuple []) := by
+          intro c hc
+          have hm := mem c hc
+          rw [h.1] at hm
+          apply desc_seed_nil n ihH c (C c hc) (.gtuple []) (by simpa [depth] using hn0)
+            (by simp [wf, wfAttrs, namesOf, specialisable]) (by simp [frag, fragAttrs]) rfl
+          simpa [atomAt, hashG, hfin, hatom, xorAttrs, hxor_nil_right] using hm
+        exact hne ((hu c1 hc1).trans (hu c2 hc2).symm ▸ rfl)
+      case gtuple as' =>
+        obtain ⟨nb, _, fbs, _⟩ := gtuple_facts n as' db wb' (by simpa [frag] using fb')
+        simp only [hashG, hfin, hatom, if_true] at h
+        simp at h
+        have := gtuple_payload_mem as' s' nb fbs
+        rw [show hatom "mapC" (V.set []) s' = [V.tup [("mapC", V.set []), ("seed", V.set s')]] from rfl, ← h.1,
+          mem_mk] at this
+        obtain ⟨c, hc, e'⟩ := List.mem_map.1 this
+        obtain ⟨x, sd, fx, px, ex⟩ := desc_atom n c (C c hc)
+        rw [ex] at e'
+        exact atomAt_ne_mapC x fx px _ _ _ e'
+      case generic ys =>
+        obtain ⟨fy, ny, _, _, wy, dy, py⟩ := generic_facts n ys db wb' (by simpa [frag] using fb')
+        have ay := atoms_nodup ys fy py ny (fun x hx y hy =>
+          memH ys [] dy (by simp) wy rfl fy rfl py (by simp) x (by simp [hx]) y (by simp [hy]))
+        have hgm : ∀ y, y ∈ ys → genericMember y = true := by
+          simp only [wf, Bool.and_eq_true] at wb'
+          exact fun y hy => List.all_eq_true.1 wb'.1.1.2 y hy
+        simp [hashG, hfin, hatom] at h
+        apply uni .g
+        intro c hc
+        have hm := mem c hc
+        rw [h.1] at hm
+        obtain ⟨y, hy, e⟩ := xorList_mem_atom ys fy py ay _ hm
+        rw [desc_seed_nil n ihH c (C c hc) y (dy y hy) (wfList_mem ys y wy hy) (fragList_mem ys y fy hy) (py y hy) e.symm]
+        exact bucketV_genericMember y (hgm y hy)
+      case array vs' off' c' =>
+        obtain ⟨fo, _, _, _, _, _⟩ := array_facts n vs' off' c' db wb' (by simpa [frag] using fb')
+        simp [hashG, hfin, hatom] at h
+        apply uni .i
+        intro c hc
+        have hm := mem c hc
+        rw [h.1, xorOpts_eq_mk off' vs' s' fo, mem_mk] at hm
+        obtain ⟨p, hp, e⟩ := List.mem_map.1 hm
+        obtain ⟨pp, pf⟩ := fragOpts_mem vs' p.2 fo (idxItems_mem vs' off' p hp)
+        exact desc_seed_int n c (C c hc) p.2 pf pp p.1 s' e.symm
+      case dict m' =>
+        obtain ⟨_, hwd, hk, hfd, _, Fd⟩ := dict_facts n m' db wb' (by simpa [frag] using fb')
+        have and' := dictAtoms_nodup m' s' hfd hwd hk
+          (dictH m' m' db db wb' wb' (by simpa [frag] using fb') (by simpa [frag] using fb'))
+        simp [hashG, hfin, hatom] at h
+        apply uni .e
+        intro c hc
+        have hm := mem c hc
+        rw [h.1, xorDict_eq_mk m' s' hfd and', mem_mk] at hm
+        obtain ⟨e, he, e'⟩ := List.mem_map.1 hm
+        obtain ⟨⟨_, _, fk, pk⟩, ⟨_, _, fv, pv⟩⟩ := Fd e he
+        exact desc_seed_hash n c (C c hc) e.2 fv pv e.1 fk pk s' e'.symm
+      case relation ns' rows' =>
+        have fr : frag (.relation ns' rows') = true := by simpa [frag] using fb'
+        obtain ⟨hnne, hnnd, _, hwr, hdn, _, F⟩ := relation_facts n ns' rows' db wb' fr
+        have tfp : ∀ t, t ∈ rowTs ns' rows' → frag t = true ∧ plain t = true := by
+          intro t ht
+          obtain ⟨row, hr, rfl⟩ := List.mem_map.1 ht
+          exact ⟨(F row hr).2.2.1, rfl⟩
+        have RH := rowH ns' ns' rows' rows' db db wb' wb' fr fr
+        have an := seeded_nodup (rowTs ns' rows') s' tfp (by rw [← denRows_rowTs]; exact hdn)
+          (fun x hx y hy => by have := RH x (by simp [hx]) y (by simp [hy]) s' s'; simpa using this)
+        simp [hashG, hfin, hatom] at h
+        rw [xorRows_eq_mk ns' rows' s' (fun row hr => (F row hr).2.2.1) an] at h
+        have row : ∀ c, c ∈ ucontribs bs → ∃ r, r ∈ rows' ∧ c.1 = atomAt (rowT ns' r) s' := by
+          intro c hc
+          have hm := mem c hc
+          rw [h.1, mem_mk] at hm
+          obtain ⟨t, ht, e⟩ := List.mem_map.1 hm
+          obtain ⟨r, hr, rfl⟩ := List.mem_map.1 ht
+          exact ⟨r, hr, e.symm⟩
+        obtain ⟨r1, hr1, e1⟩ := row c1 hc1
+        obtain ⟨r2, hr2, e2⟩ := row c2 hc2
+        have hs : s' = [] := desc_same_seed n c1 c2 (C c1 hc1) (C c2 hc2) (rowT ns' r1) (rowT ns' r2)
+          (F r1 hr1).2.2.1 rfl (F r2 hr2).2.2.1 rfl s' e1 e2 hne
+        apply uni (.r (headingOf ns'))
+        intro c hc
+        obtain ⟨r, hr, e⟩ := row c hc
+        rw [hs] at e
+        rw [desc_seed_nil n ihH c (C c hc) (rowT ns' r) (F r hr).1 (F r hr).2.1 (F r hr).2.2.1 rfl e]
+        exact bucketV_rowT ns' rows' r hnnd hnne hwr hr
+    -- the hash of a relation differs from the hash of every other plain value
+    have relNe : ∀ (ns : List String) (rows : List (List Rep)) (b : Rep), depth (.relation ns rows) < n + 1 →
+        depth b < n + 1 → wf (.relation ns rows) = true → wf b = true → frag (.relation ns rows) = true →
+        frag b = true → (∀ ns' rows', b ≠ .relation ns' rows') → plain b = true →
+        ∀ s s' : HV, hashG true (.relation ns rows) s ≠ hashG true b s' := by
+      intro ns rows b dr db wr wb' fr fb' hnr pb s s' h
+      obtain ⟨hnne, hnnd, hrne, hwr, hdn, _, F⟩ := relation_facts n ns rows dr wr fr
+      have tfp : ∀ t, t ∈ rowTs ns rows → frag t = true ∧ plain t = true := by
+        intro t ht
+        obtain ⟨row, hr, rfl⟩ := List.mem_map.1 ht
+        exact ⟨(F row hr).2.2.1, rfl⟩
+      have RH := rowH ns ns rows rows dr dr wr wr fr fr
+      have an := seeded_nodup (rowTs ns rows) s tfp (by rw [← denRows_rowTs]; exact hdn)
+        (fun x hx y hy => by have := RH x (by simp [hx]) y (by simp [hy]) s s; simpa using this)
+      obtain ⟨r0, hr0⟩ : ∃ r0, r0 ∈ rows := by
+        cases hh : rows with
+        | nil => exact absurd hh hrne
+        | cons r _ => exact ⟨r, by simp⟩
+      obtain ⟨d0, w0, f0, _⟩ := F r0 hr0
+      have hn0 : 0 < n := by omega
+      have hmem : atomAt (rowT ns r0) s ∈ mk ((rowTs ns rows).map (fun t => atomAt t s)) := by
+        rw [mem_mk]; exact List.mem_map.2 ⟨rowT ns r0, List.mem_map.2 ⟨r0, hr0, rfl⟩, rfl⟩
+      have hbk := bucketV_rowT ns rows r0 hnnd hnne hwr hr0
+      simp only [hashG, hfin, if_true] at h
+      rw [xorRows_eq_mk ns rows s (fun row hr => (F row hr).2.2.1) an] at h
+      cases b <;> simp [frag] at fb' <;> simp [plain] at pb
+      case num x => simp [hashG, hatom] at h
+      case charT i c => simp [hashG, hatom] at h
+      case byteT i c => simp [hashG, hatom] at h
+      case str r off hh => simp [hashG, hatom] at h
+      case bytes r off => simp [hashG, hatom] at h
+      case relation ns' rows' => exact hnr ns' rows' rfl
+      case union bs' =>
+        exact unionNe bs' (.relation ns rows) db dr wb' wr (by simpa [frag] using fb') fr (by intro a e; cases e) rfl s' s
+          (by simp only [hashG, hfin, if_true]; rw [xorRows_eq_mk ns rows s (fun row hr => (F row hr).2.2.1) an]; exact h.symm)
+      case empty =>
+        simp [hashG, hfin, hatom] at h
+        have := (mk_eq_nil _).1 h.1
+        simp [rowTs] at this
+        exact hrne this
+      case true_ =>
+        simp [hashG, hfin, hatom] at h
+        rw [h.1] at hmem
+        simp at hmem
+        have hu : hashG true (rowT ns r0) s = hashG true (.gtuple []) [] := by
+          rw [hash_singleton _ f0 rfl, hmem]; simp [hashG, hfin, hatom, xorAttrs, hxor_nil_right]
+        have := (ihH (rowT ns r0) (.gtuple []) d0 (by simpa [depth] using hn0) w0
+          (by simp [wf, wfAttrs, namesOf, specialisable]) f0 (by simp [frag, fragAttrs]) rfl rfl s []).1 hu
+        rw [this.2] at hbk
+        simp [den, denAttrs, V.mkTup, bucketV_unit] at hbk
+      case gtuple bs =>
+        obtain ⟨nb, _, fbs, _⟩ := gtuple_facts n bs db wb' (by simpa [frag] using fb')
+        simp only [hashG, hfin, hatom, if_true] at h
+        simp at h
+        have := gtuple_payload_mem bs s' nb fbs
+        rw [show hatom "mapC" (V.set []) s' = [V.tup [("mapC", V.set []), ("seed", V.set s')]] from rfl, ← h.1,
+          mem_mk] at this
+        obtain ⟨t, ht, e'⟩ := List.mem_map.1 this
+        exact atomAt_ne_mapC t (tfp t ht).1 (tfp t ht).2 _ _ _ e'
+      case generic ys =>
+        obtain ⟨fy, ny, ney, _, wy, dy, py⟩ := generic_facts n ys db wb' (by simpa [frag] using fb')
+        have ay := atoms_nodup ys fy py ny (fun x hx y hy =>
+          memH ys [] dy (by simp) wy rfl fy rfl py (by simp) x (by simp [hx]) y (by simp [hy]))
+        have hgm : ∀ y, y ∈ ys → genericMember y = true := by
+          simp only [wf, Bool.and_eq_true] at wb'
+          exact fun y hy => List.all_eq_true.1 wb'.1.1.2 y hy
+        simp [hashG, hfin, hatom] at h
+        rw [h.1] at hmem
+        obtain ⟨y, hy, e⟩ := xorList_mem_atom ys fy py ay _ hmem
+        have hs := atomAt_seed_inj y (rowT ns r0) (fragList_mem ys y fy hy) (py y hy) f0 rfl _ _ e
+        have hu : hashG true y [] = hashG true (rowT ns r0) s := by
+          rw [hash_singleton y (fragList_mem ys y fy hy) (py y hy), hash_singleton _ f0 rfl]
+          exact congrArg (fun a => [a]) e
+        have := (ihH y (rowT ns r0) (dy y hy) d0 (wfList_mem ys y wy hy) w0 (fragList_mem ys y fy hy) f0
+          (py y hy) rfl [] s).1 hu
+        rw [← this.2, bucketV_genericMember y (hgm y hy)] at hbk
+        cases hbk
+      case array vs' off' c' =>
+        obtain ⟨fo, hh, _, _, _, _⟩ := array_facts n vs' off' c' db wb' (by simpa [frag] using fb')
+        simp [hashG, hfin, hatom] at h
+        rw [h.1, xorOpts_eq_mk off' vs' s' fo, mem_mk] at hmem
+        obtain ⟨p, hp, e⟩ := List.mem_map.1 hmem
+        obtain ⟨pp, pf⟩ := fragOpts_mem vs' p.2 fo (idxItems_mem vs' off' p hp)
+        have := atomAt_seed_inj p.2 (rowT ns r0) pf pp f0 rfl _ _ e
+        rw [← h.2] at this
+        exact seed_acyclic _ _ _ this
+      case dict m' =>
+        obtain ⟨_, hwd, hk, hfd, hen, Fd⟩ := dict_facts n m' db wb' (by simpa [frag] using fb')
+        have and' := dictAtoms_nodup m' s' hfd hwd hk (dictH m' m' db db wb' wb' (by simpa [frag] using fb') (by simpa [frag] using fb'))
+        simp [hashG, hfin, hatom] at h
+        rw [h.1, xorDict_eq_mk m' s' hfd and', mem_mk] at hmem
+        obtain ⟨e, he, e'⟩ := List.mem_map.1 hmem
+        obtain ⟨⟨_, _, fk, pk⟩, ⟨_, _, fv, pv⟩⟩ := Fd e he
+        have := atomAt_seed_inj e.2 (rowT ns r0) fv pv f0 rfl _ _ e'
+        rw [hash_singleton e.1 fk pk, ← h.2] at this
+        obtain ⟨t, q, et⟩ := atomAt_seed e.1 fk pk s
+        rw [et] at this
+        exact single_acyclic _ _ _ this
     -- the hash of a dictionary differs from the hash of every other plain value
     have dictNe : ∀ (m : List (Rep × List Rep)) (b : Rep), depth (.dict m) < n + 1 → depth b < n + 1 →
         wf (.dict m) = true → wf b = true → frag (.dict m) = true → frag b = true → (∀ m', b ≠ .dict m') →
@@ -2121,6 +3949,9 @@ theorem main_frag : ∀ (n : Nat) (a b : Rep), depth a < n → depth b < n → w
       case str r off hh => simp [hashG, hatom] at h
       case bytes r off => simp [hashG, hatom] at h
       case dict m' => exact hnd m' rfl
+      case union bs' =>
+        exact unionNe bs' (.dict m) db dm wb' wm (by simpa [frag] using fb') fm (by intro a e; cases e) rfl s' s
+          (by simp only [hashG, hfin, if_true]; rw [xorDict_eq_mk m s hfd an]; exact h.symm)
       case empty =>
         simp [hashG, hfin, hatom] at h
         have := (mk_eq_nil _).1 h.1
@@ -2163,6 +3994,9 @@ theorem main_frag : ∀ (n : Nat) (a b : Rep), depth a < n → depth b < n → w
         rw [hash_singleton e0.1 fk0 pk0] at this
         simp [intSeed, hatom] at this
         exact atomAt_ne_int e0.1 fk0 pk0 s _ _ this.symm
+      case relation ns' rows' =>
+        exact relNe ns' rows' (.dict m) db dm wb' wm (by simpa [frag] using fb') fm (by intro a b e; cases e) rfl s' s
+          (by simp only [hashG, hfin, if_true]; rw [xorDict_eq_mk m s hfd an]; exact h.symm)
     cases a with
     | num x =>
       cases b with
@@ -2267,6 +4101,12 @@ theorem main_frag : ∀ (n : Nat) (a b : Rep), depth a < n → depth b < n → w
       | dict m' =>
         exact cross_lemma _ _ (by simp [ctorTag]) htag (by simp [equal, equalG, isTuple])
           (fun pa _ s s' h => dictNe m' _ hb ha wb wa fb fa (by intro m e; cases e) pa s' s h.symm)
+      | relation ns' rows' =>
+        exact cross_lemma _ _ (by simp [ctorTag]) htag (by simp [equal, equalG])
+          (fun pa _ s s' h => relNe ns' rows' _ hb ha wb wa fb fa (by intro a b e; cases e) pa s' s h.symm)
+      | union bs' =>
+        exact cross_lemma _ _ (by simp [ctorTag]) htag (by simp [equal, equalG])
+          (fun pa _ s s' h => unionNe bs' _ hb ha wb wa fb fa (by intro a e; cases e) pa s' s h.symm)
       | _ => cross htag fb
     | true_ =>
       cases b with
@@ -2319,6 +4159,12 @@ theorem main_frag : ∀ (n : Nat) (a b : Rep), depth a < n → depth b < n → w
       | dict m' =>
         exact cross_lemma _ _ (by simp [ctorTag]) htag (by simp [equal, equalG, isTuple])
           (fun pa _ s s' h => dictNe m' _ hb ha wb wa fb fa (by intro m e; cases e) pa s' s h.symm)
+      | relation ns' rows' =>
+        exact cross_lemma _ _ (by simp [ctorTag]) htag (by simp [equal, equalG])
+          (fun pa _ s s' h => relNe ns' rows' _ hb ha wb wa fb fa (by intro a b e; cases e) pa s' s h.symm)
+      | union bs' =>
+        exact cross_lemma _ _ (by simp [ctorTag]) htag (by simp [equal, equalG])
+          (fun pa _ s s' h => unionNe bs' _ hb ha wb wa fb fa (by intro a e; cases e) pa s' s h.symm)
       | _ => cross htag fb
     | gtuple as =>
       obtain ⟨na, was, fas, das⟩ := gtuple_facts n as ha wa fa
@@ -2430,8 +4276,12 @@ theorem main_frag : ∀ (n : Nat) (a b : Rep), depth a < n → depth b < n → w
         | dict m' =>
           exact cross_lemma _ _ (by simp [ctorTag]) htag (by simp [equal, equalG, isTuple])
             (fun pa _ s s' h => dictNe m' _ hb ha wb wa fb fa (by intro m e; cases e) pa s' s h.symm)
-        | relation names rows => simp [frag] at fb
-        | union bs => simp [frag] at fb
+        | relation ns' rows' =>
+          exact cross_lemma _ _ (by simp [ctorTag]) htag (by simp [equal, equalG, isTuple])
+            (fun pa _ s s' h => relNe ns' rows' _ hb ha wb wa fb fa (by intro a b e; cases e) pa s' s h.symm)
+        | union bs' =>
+          exact cross_lemma _ _ (by simp [ctorTag]) htag (by simp [equal, equalG, isTuple])
+            (fun pa _ s s' h => unionNe bs' _ hb ha wb wa fb fa (by intro a e; cases e) pa s' s h.symm)
         | _ => simp [isTuple] at hbt'
     | generic xs =>
       obtain ⟨fx, nx, nex, ntx, wx, dx, px⟩ := generic_facts n xs ha wa fa
@@ -2509,6 +4359,12 @@ theorem main_frag : ∀ (n : Nat) (a b : Rep), depth a < n → depth b < n → w
       | dict m' =>
         exact cross_lemma _ _ (by simp [ctorTag]) htag (by simp [equal, equalG, isTuple])
           (fun pa _ s s' h => dictNe m' _ hb ha wb wa fb fa (by intro m e; cases e) pa s' s h.symm)
+      | relation ns' rows' =>
+        exact cross_lemma _ _ (by simp [ctorTag]) htag (by simp [equal, equalG])
+          (fun pa _ s s' h => relNe ns' rows' _ hb ha wb wa fb fa (by intro a b e; cases e) pa s' s h.symm)
+      | union bs' =>
+        exact cross_lemma _ _ (by simp [ctorTag]) htag (by simp [equal, equalG])
+          (fun pa _ s s' h => unionNe bs' _ hb ha wb wa fb fa (by intro a e; cases e) pa s' s h.symm)
       | _ => cross htag fb
     | array vs off c =>
       obtain ⟨fo, hh, hl, wo, hc, dv⟩ := array_facts n vs off c ha wa fa
@@ -2617,6 +4473,12 @@ theorem main_frag : ∀ (n : Nat) (a b : Rep), depth a < n → depth b < n → w
       | dict m' =>
         exact cross_lemma _ _ (by simp [ctorTag]) htag (by simp [equal, equalG, isTuple])
           (fun pa _ s s' h => dictNe m' _ hb ha wb wa fb fa (by intro m e; cases e) pa s' s h.symm)
+      | relation ns' rows' =>
+        exact cross_lemma _ _ (by simp [ctorTag]) htag (by simp [equal, equalG])
+          (fun pa _ s s' h => relNe ns' rows' _ hb ha wb wa fb fa (by intro a b e; cases e) pa s' s h.symm)
+      | union bs' =>
+        exact cross_lemma _ _ (by simp [ctorTag]) htag (by simp [equal, equalG])
+          (fun pa _ s s' h => unionNe bs' _ hb ha wb wa fb fa (by intro a e; cases e) pa s' s h.symm)
       | _ => cross htag fb
     | dict m =>
       by_cases hbd : ∃ m', b = .dict m'
@@ -2702,8 +4564,122 @@ theorem main_frag : ∀ (n : Nat) (a b : Rep), depth a < n → depth b < n → w
           case dict m' => exact hnd m' rfl
         exact cross_lemma _ _ hct htag (dict_equal_nondict m b wb fb hnd)
           (fun _ pb s s' => dictNe m b ha hb wa wb fa fb hnd pb s s')
-    | _ => simp [frag] at fa
+    | relation ns rows =>
+      by_cases hbr : ∃ ns' rows', b = .relation ns' rows'
+      · obtain ⟨ns', rows', rfl⟩ := hbr
+        have ok := relOk_of_facts n ns rows ha wa fa
+        have ok' := relOk_of_facts n ns' rows' hb wb fb
+        obtain ⟨_, _, _, _, hdn, _, F⟩ := relation_facts n ns rows ha wa fa
+        obtain ⟨_, _, _, _, hdn', _, F'⟩ := relation_facts n ns' rows' hb wb fb
+        have hden : den (.relation ns rows) = den (.relation ns' rows') ↔
+            mk (denRows ns rows) = mk (denRows ns' rows') := by
+          simp [den, V.mkSet]
+        have tfp : ∀ t, t ∈ rowTs ns rows → frag t = true ∧ plain t = true := by
+          intro t ht
+          obtain ⟨row, hr, rfl⟩ := List.mem_map.1 ht
+          exact ⟨(F row hr).2.2.1, rfl⟩
+        have tfp' : ∀ t, t ∈ rowTs ns' rows' → frag t = true ∧ plain t = true := by
+          intro t ht
+          obtain ⟨row, hr, rfl⟩ := List.mem_map.1 ht
+          exact ⟨(F' row hr).2.2.1, rfl⟩
+        have an : ∀ s, ((rowTs ns rows).map (fun t => atomAt t s)).Nodup := fun s =>
+          seeded_nodup (rowTs ns rows) s tfp (by rw [← denRows_rowTs]; exact hdn)
+            (fun x hx y hy => by
+              have := rowH ns ns rows rows ha ha wa wa fa fa x (by simp [hx]) y (by simp [hy]) s s
+              simpa using this)
+        have an' : ∀ s, ((rowTs ns' rows').map (fun t => atomAt t s)).Nodup := fun s =>
+          seeded_nodup (rowTs ns' rows') s tfp' (by rw [← denRows_rowTs]; exact hdn')
+            (fun x hx y hy => by
+              have := rowH ns' ns' rows' rows' hb hb wb wb fb fb x (by simp [hx]) y (by simp [hy]) s s
+              simpa using this)
+        have core : ∀ s, mk ((rowTs ns rows).map (fun t => atomAt t s)) = mk ((rowTs ns' rows').map (fun t => atomAt t s)) ↔
+            mk (denRows ns rows) = mk (denRows ns' rows') := fun s => by
+          rw [denRows_rowTs, denRows_rowTs]
+          exact seeded_core _ _ s tfp tfp' (fun x hx y hy => by
+            have := rowH ns ns' rows rows' ha hb wa wb fa fb x hx y hy s s
+            simpa using this)
+        refine ⟨?_, fun _ _ s s' => ?_⟩
+        · rw [hden]
+          exact relation_equal_iff ns ns' rows rows' ok ok' (relH ns ns' rows rows' ha hb wa wb fa fb)
+        · rw [hden]
+          simp only [hashG, hfin, hatom, if_true]
+          constructor
+          · intro h
+            simp at h
+            obtain ⟨h1, h2⟩ := h
+            subst h2
+            refine ⟨rfl, ?_⟩
+            rw [xorRows_eq_mk ns rows s (fun row hr => (F row hr).2.2.1) (an s),
+              xorRows_eq_mk ns' rows' s (fun row hr => (F' row hr).2.2.1) (an' s)] at h1
+            exact (core s).1 h1
+          · rintro ⟨rfl, h⟩
+            have := (core s).2 h
+            rw [← xorRows_eq_mk ns rows s (fun row hr => (F row hr).2.2.1) (an s),
+              ← xorRows_eq_mk ns' rows' s (fun row hr => (F' row hr).2.2.1) (an' s)] at this
+            rw [this]
+      · have hnr : ∀ ns' rows', b ≠ .relation ns' rows' := fun ns' rows' e => hbr ⟨ns', rows', e⟩
+        have hct : ctorTag (.relation ns rows) ≠ ctorTag b := by
+          cases b <;> simp [ctorTag]
+          case relation ns' rows' => exact hnr ns' rows' rfl
+        have heq : equal (.relation ns rows) b = false := by
+          cases b <;> simp [equal, equalG]
+          case relation ns' rows' => exact absurd rfl (hnr ns' rows')
+        exact cross_lemma _ _ hct htag heq
+          (fun _ pb s s' => relNe ns rows b ha hb wa wb fa fb hnr pb s s')
+    | union bs =>
+      by_cases hbu : ∃ bs', b = .union bs'
+      · obtain ⟨bs', rfl⟩ := hbu
+        obtain ⟨_, hn1, hwb1, F⟩ := union_facts n ih bs ha wa fa
+        obtain ⟨_, hn2, hwb2, F'⟩ := union_facts n ih bs' hb wb fb
+        have hden : den (.union bs) = den (.union bs') ↔ mk (denBuckets bs) = mk (denBuckets bs') := by
+          simp [den, V.mkSet]
+        refine ⟨?_, fun _ _ s s' => ?_⟩
+        · rw [hden]
+          exact union_equal_iff bs bs' hn1 hn2 hwb1 hwb2 (fun p hp q hq =>
+            (ih p.2 q.2 (F p hp).1 (F' q hq).1 (F p hp).2.1 (F' q hq).2.1 (F p hp).2.2.1 (F' q hq).2.2.1).1)
+        · rw [hden]
+          simp only [hashG, hfin, hatom, if_true]
+          constructor
+          · intro h
+            simp at h
+            exact ⟨h.2, (union_core n ih bs bs' ha hb wa wb fa fb).1 h.1⟩
+          · rintro ⟨rfl, h⟩
+            rw [(union_core n ih bs bs' ha hb wa wb fa fb).2 h]
+      · have hnu : ∀ bs', b ≠ .union bs' := fun bs' e => hbu ⟨bs', e⟩
+        have hct : ctorTag (.union bs) ≠ ctorTag b := by
+          cases b <;> simp [ctorTag]
+          case union bs' => exact hnu bs' rfl
+        have heq : equal (.union bs) b = false := by
+          cases b <;> simp [equal, equalG]
+          case union bs' => exact absurd rfl (hnu bs')
+        exact cross_lemma _ _ hct htag heq
+          (fun _ pb s s' => unionNe bs b ha hb wa wb fa fb hnu pb s s')
 
+
+/-- a canonical relation is determined by its denotation up to column order and row order -/
+theorem relation_den_inj (ns ns' : List String) (rows rows' : List (List Rep))
+    (wa : wf (.relation ns rows) = true) (wb : wf (.relation ns' rows') = true)
+    (h : den (.relation ns rows) = den (.relation ns' rows')) :
+    sortStrs ns = sortStrs ns' ∧ rows.length = rows'.length ∧
+      ∀ v, v ∈ denRows ns rows ↔ v ∈ denRows ns' rows' := by
+  simp only [den, V.mkSet, V.set.injEq] at h
+  have hm := (FinSet.mk_eq_iff _ _).1 h
+  simp only [wf, Bool.and_eq_true, Bool.not_eq_true', decide_eq_true_eq] at wa wb
+  obtain ⟨⟨⟨⟨_, hnd⟩, hrn⟩, hwr⟩, hdn⟩ := wa
+  obtain ⟨⟨⟨⟨_, hnd'⟩, _⟩, hwr'⟩, hdn'⟩ := wb
+  refine ⟨?_, ?_, hm⟩
+  · rw [sortStrs_eq_iff ns ns' hnd hnd']
+    cases rows with
+    | nil => simp at hrn
+    | cons r0 r =>
+      have h0 : den (rowT ns r0) ∈ denRows ns' rows' := by
+        rw [← hm, denRows_eq]; simp
+      rw [denRows_eq] at h0
+      obtain ⟨r0', hr0', e⟩ := List.mem_map.1 h0
+      exact names_of_rowDen ns ns' r0 r0' (wfRows_mem ns (r0 :: r) r0 hwr (by simp)).1
+        (wfRows_mem ns' rows' r0' hwr' hr0').1 e.symm
+  · have := FinSet.length_eq_of_same_members _ _ hdn hdn' hm
+    rwa [denRows_eq, denRows_eq, List.length_map, List.length_map] at this
 
 /-- a canonical array is determined by its denotation (offset, hole pattern, item denotations) -/
 theorem array_den_inj (vs vs' : List (Option Rep)) (off off' c c' : Int)
